@@ -12,1047 +12,2611 @@ Definition show_fres (r : fres) : string :=
   end.
 Definition check (rs : list rune) : string := digest (show_fres (format_res rs)).
 Definition full (rs : list rune) : string := show_fres (format_res rs).
-Eval vm_compute in ("<<<M1450>>>" ++ check (runes_of_ascii "// top
-options
-    // c0
-{ // c1
-StringPrefixLenType
-    // c2
-= u32 // c4
-; // c5a
-  // c5b
-ArrayPrefixLenType // c6
-=
-    // c7
-u8 // c8
-; // c9a
-  // c9b
-FixedStringPadFromLeft // c10a
-  // c10b
-= false // c12
-; } packet // c15
-Logon
-    // c16
-{ // c17
-i8
-    // c18
-venue
-    // c19
-, // c20a
-  // c20b
-int16 f1
-    // c22
-,
-    // c23
-zchar[
-    // c24
-8
-    // c25
-] Acct
-    // c27
-, repeat // c29a
-  // c29b
-InNote16 { InQty73 // c32a
-  // c32b
-{
-    // c33
-float32
-    // c34
-tag7 ,
-    // c36
-} // c37
-, // c38a
-  // c38b
-f32 // c39
-Acct // c40
-, // c41a
-  // c41b
-zchar[
-    // c42
-5 // c43
-] // c44
-sym // c45a
-  // c45b
-,
-    // c46
-} // c47
-, uint16
-    // c49
-Side2 // c50a
-  // c50b
-, // c51a
-  // c51b
-i32 lastPx // c53a
-  // c53b
-, // c54
-} // c55a
-  // c55b
-packet
-    // c56
-Fill // c57a
-  // c57b
-{ // c58
-repeat // c59
-InOrderid15 // c60
-{ zchar[ 8 // c63
-] // c64
-sym // c65
-, // c66a
-  // c66b
-repeat
-    // c67
-char[
-    // c68
-2 ] OrderId // c71
-, repeat
-    // c73
-Logon
-    // c74
-,
-    // c75
-InQty82 // c76
-{
-    // c77
-char[]
-    // c78
-Tail , repeat Logon // c82a
-  // c82b
-, float64
-    // c84
-price
-    // c85
-, f64
-    // c87
-Side2 // c88
-, // c89a
-  // c89b
-}
-    // c90
-, char[ // c92
-12 ] // c94a
-  // c94b
-venue // c95a
-  // c95b
-,
-    // c96
-char[ // c97
-4
-    // c98
-] // c99
-Px // c100
-, // c101a
-  // c101b
-} ,
-    // c103
-@rightPad (
-    // c105
-'0' // c106a
-  // c106b
-)
-    // c107
-char[ // c108
-2 // c109
-]
-    // c110
-venue // c111a
-  // c111b
-, // c112
-InPrice99 // c113a
-  // c113b
-{ // c114
-InAcct72
-    // c115
-{ // c116
-u8 pad0 // c118
-,
-    // c119
-} // c120
-,
-    // c121
-u32 // c122
-OrderId // c123a
-  // c123b
-,
-    // c124
-Logon ,
-    // c126
-}
-    // c127
-, // c128
-}
-    // c129
-root // c130a
-  // c130b
-packet // c131a
-  // c131b
-Reject
-    // c132
-{ zchar[ // c134a
-  // c134b
-9 ] msgKind // c137
-, u32 // c139
-venue
-    // c140
-, u16 // c142
-seqNo // c143a
-  // c143b
-@lengthOf(
-    // c144
-Body ) // c146a
-  // c146b
-, // c147a
-  // c147b
-match // c148
-venue // c149a
-  // c149b
-as Body
-    // c151
-{ // c152
-57 :
-    // c154
-Fill // c155a
-  // c155b
-, // c156a
-  // c156b
-8
-    // c157
-: Logon , // c160
-} , // c162
-u16 Tail @calculatedFrom( ""CRC32""
-    // c166
-) // c167
-, // c168a
-  // c168b
-} // c169
-")).
-Eval vm_compute in ("<<<M1724>>>" ++ check (runes_of_ascii "packet
-	chars {
-    i8
-	Z9_ ,
+Eval vm_compute in ("<<<M3728>>>" ++ check (runes_of_ascii "// top
+  options	// c0
+  { 
+    // c1
+	LittleEndian =// c3a
 
-    match 
-      // " ++ [128512]%N ++ runes_of_ascii " emoji
-  //	t
-  zchar
-    as
-Logon
-{ 
-00 :i8i8
-    [ 
-""// no comment""
-	, 42
-    ,
-    10,
-    ""it's""
-, 4294967296
+// c3b
+  false 
+// c4
+    	; 	 // c5a
+	  // c5b
+StringPrefixLenType// c6
+      = // c7a
+	// c7b
+  u16
+// c8
+  	; 	 // c9a
+
+// c9b
+
+ArrayPrefixLenType
+
+    =// c11
+    u16  // c12a
+  // c12b
+;
+        // c13
+	FixedStringPadFromLeft  
+  // c14
+    	=  // c15a
+      // c15b
+      false; FixedStringPadChar 	 // c18a
+  	// c18b
+  =
+' ' 
+      // c20
+;  // c21a
+    // c21b
+}  // c22
+      packet // c23a
+  // c23b
+
+  Heartbeat// c24
+  	{ // c25a
+
+  // c25b
+    	i32 
+    // c26
+  f1
+, // c28
+    } packet	Cancel  // c31a
+  // c31b
+	{char[]Note
+,	// c35a
+	  // c35b
+
+}
+    packet 	 // c37a
+  // c37b
+Fill// c38a
+// c38b
+	{	// c39
+    u32  price 
 , 
-""`tick`"" ,
-    ""x y""	,
-	""a\""b""
-]
-:leftPad
-[
+	    // c42
 
-""\" ++ [233]%N ++ runes_of_ascii """ ]
+  float64
+Ref	, // c45
+  zchar[ // c46
+	8
 
-    :
+    ]  
+  // c48
+	  tag7  // c49a
+  	// c49b
+	,	// c50
+    repeat  
+  // c51
 
-A	[
-""abc""/// triple
-  	, 
-""1""  ] : zchar 
+	Cancel,  
+      // c53
+	int64	// c54
+  Acct 	 // c55a
+	  // c55b
+	, 	 // c56a
+
+// c56b
+    } // c57
+  packet  Quote { // c60a
+  // c60b
+    @rightPad// c61a
+
+	// c61b
+
+(// c62
+  	'0'// c63
+  )
+char[ 	 // c65a
+    // c65b
+		12]	// c67
+  count
+,  char[]
+// c70
+seqNo // c71
+	  ,// c72
+} 	 // c73
+root 
+    // c74
+	packet 	 // c75
+    	Party
+// c76
+
+	{  // c77a
+	// c77b
+	Fill
+	    // c78
+    	,  
+  // c79
+  InMsgkind30{ 
+repeat u16 // c83
+		Ref
+	, 
+
+    // c85
+repeat InCount61  // c87
+	{
+repeat	i8// c90
+    sym  
+  // c91
+
 ,
-3
+	// c92
+    	char[]
+    // c93
+	Ref
 
-    : x
-,  3:
+    // c94
 
-x_y_z  ,
-	}	,
+,
+    repeat 	 // c96a
+  	// c96b
+char[// c97
+    4 
+  // c98
+    	]
+    Qty 	 // c100
+	,	// c101
 
-uint8x // a // b
+repeat	// c102a
+    // c102b
+    Heartbeat
+	    // c103
+
+  ,
+}
+    , 
+// c106
+  u32 	 // c107a
+    // c107b
+venue ,  
+  // c109
+	  uint16 Flags  // c111
+
+,
+
+// c112
+	}  ,
+
+    u8 
+      // c115
+    	Px 	 // c116a
+    // c116b
+  ,// c117
+  repeat	// c118
+
+u16// c119a
+// c119b
+
+  Side2 	 // c120a
+
+// c120b
+	  ,  // c121a
+  // c121b
+  @rightPad	(
+    // c123
+	'0'	// c124a
+// c124b
+  )	// c125a
+  	// c125b
+char[
+
+    // c126
+  	10 
+
+// c127
+    ]  // c128
+    Qty // c129a
+    // c129b
+	,@rightPad	( '\x00'
+)	// c134a
+
+	// c134b
+
+  char[ 
+    // c135
+  1  // c136
+
+]
+    // c137
+
+	clOrdID// c138a
+	// c138b
+      ,
+
+    // c139
+	u8  // c140a
+    // c140b
+    Tail	// c141a
+		// c141b
+    ,
+match // c143a
+  // c143b
+  	Tail
+	as// c145a
+  // c145b
+  Body 
+	    // c146
+      {  // c147
+  	[ 	 // c148
+
+159// c149a
+		// c149b
+, 
+// c150
+  182 // c151
+	] :
+
+    Quote
+
+, // c155
+  	155// c156
+
+  :
+    // c157
+		Heartbeat// c158
+    	, 
+	// c159
+	178 // c160a
+  // c160b
+		: // c161a
+  // c161b
+Fill 
+	// c162
+      ,  49:
+	Cancel	// c166a
+
+// c166b
+,	// c167a
+  	// c167b
+	} ,	// c169a
+  // c169b
+	u16  // c170a
+  // c170b
+    	Ref 
+    // c171
+
+@calculatedFrom( // c172a
+  // c172b
+
+  ""CRC32""
+// c173
+  )// c174a
+	// c174b
+  ,
+
+} // c176
+ 
+")).
+Eval vm_compute in ("<<<M4198>>>" ++ check (runes_of_ascii "packet uint8x { @lengthOf(
+	lengthOf
+    )
+
+@lengthOf(
+
+roots )repeat i64_
+
+crc ``
+,
+	@lengthOf(  BodyLength
+
+    )
+repeat
+
+    charz
+
+    { packetx
+
+{
+	match	// 50% %s
+  u128 as  crc // trailing space 
+      { ""it's""
+
+: options1,
+1 
+    // @lengthOf(
+	:asx
+    ,  }
+    ,	//x
+	  zchar[ 
+3	]float @calculatedFrom(
+	""packet"" )
+`it's` ,match  x_y_z as  tag  {
+	0
+	: repeatCount
+
+,  }  , }  , 
+repeat string options1	,
+char[ 65535  ] 
+stringy
+    , char[]
+    f32a
+@lengthOf(
+o
+
+)  `line1
+line2`, } , @calculatedFrom(
+    ""CRC32"")	/// triple
+  rootA
+
+`" ++ [28040; 24687; 31867; 22411]%N ++ runes_of_ascii "`
+
+,
+@tag( 1)
+zchar calculatedFrom
+
+    , int 
+
+// c
+	  // trailing space 
+{Logon`// not a comment`	,
+
+    u 
+Z9_`crlf
+line`	, char[ 
+/// triple
+  // packet A { u8 x, }
+007 ] a1 `a\`
+,	char[]
+
+options1,
+
+},
+	@lengthOf(
+	matchKey// " ++ [128512]%N ++ runes_of_ascii " emoji
+)Logon
+@calculatedFrom(""{,}"")`{ , }`
+
+    ,
+
+    u128
+    body
+`two words` ,
+    } MetaData
+matchKey{/// triple
+  int32
+    _x 
+,  } packet
+
+u8x	{match
+len as
+calculatedFrom
+
+    {
+[""// no comment"",  ""CRC32""
+// @lengthOf(
+
+// " ++ [128512]%N ++ runes_of_ascii " emoji
+
+  ] : rootA
+	,
+    65535
+	: 
+// packet A { u8 x, }
+  	crc
+    , 007 : // c
+	  zchar,
+	4294967296	:
+metadata
+// packet A { u8 x, }
+    ,},
+    @calculatedFrom(
+    ""CRC32""
+)
+
+    repeat
+    //	t
+	// 50% %s
+  char[ 007]	As
+    ,
+
 @calculatedFrom(
 
-    ""{,}"" )  //x
+    ""\" ++ [233]%N ++ runes_of_ascii """)i16  u128`a\` , repeat
+u8x{
+    repeat
+len
 
-,}	// `tick` ""quote"" 'q'
-packet
-    calculatedFrom
-
-{ int32
-T	,@lengthOf(
-float
-) f32a	len
-
-    ,@calculatedFrom( """ ++ [233]%N ++ runes_of_ascii "t" ++ [233]%N ++ runes_of_ascii """
-) 
-int32
-f32a  @lengthOf(	// c
-
-matchKey
-
-    )
-	`" ++ [233]%N ++ runes_of_ascii "`
-    ,
-
-charz
-    @calculatedFrom(	""x y""
-
-    )
-
-,
-	} root
-	packet
-stringy 	 //	t
-    { @lengthOf( Logon
-)int64
-    len
-        //x
-    @calculatedFrom(// `tick` ""quote"" 'q'
-		""CRC32""
-
-) ,T 	 // " ++ [27880; 37322]%N ++ runes_of_ascii "
-	  @calculatedFrom(
-
-    ""1""
-)	`line1
-line2`
-	,
-@tag( 255
-    )
-
-@tag( 7
-
-)  @tag(
-007
-    )
-	repeat
-
-    packetx
-len 
-	    //	t
-	// packet A { u8 x, }
-
-,
-    @tag(
-    1
-)
-	repeat	zchar[0
-	]  float
-
-,//
-  	@lengthOf( lengthOf
-	)	repeat x_y_z {
-char[ 10
-]
-    u
-
-    `
-`
-,
-
-    MetaDataX a1
-`u8 x,`	,
-    }  ,	@tag( 1
-)
-string
-
-repeatCount
-`" ++ [28040; 24687; 31867; 22411]%N ++ runes_of_ascii "`
-    ,
-    int8 int @calculatedFrom( ""// no comment"" ),	} packet asx{  @leftPad	(
-
-'\x00') char[
-    00
-]u8x@calculatedFrom(""" ++ [233]%N ++ runes_of_ascii "t" ++ [233]%N ++ runes_of_ascii """ ) , zchar[
-
-007
-	]
-asx
-    @calculatedFrom( 
-""" ++ [128512]%N ++ runes_of_ascii """  ), repeat 
-MetaDataX
-metadata `
-`
+zchar,
+BodyLength calculatedFrom
 
     , }
-")).
-Eval vm_compute in ("<<<M380>>>" ++ check (runes_of_ascii "options {
-	StringPrefixLenType = u16;
-	ArrayPrefixLenType = u16;
-}
+	, 
+@calculatedFrom(	"""")A @calculatedFrom(""1""  
+      // a // b
+  )
+	`100% of %d` 
+, }
+packet
 
-packet SampleBinary {
-	uint16 MsgType `" ++ [28040; 24687; 31867; 22411]%N ++ runes_of_ascii "`,
-	u16 BodyLenght @lengthOf(Body) `" ++ [28040; 24687; 20307; 38271; 24230]%N ++ runes_of_ascii "`,
-	match MsgType as Body {
-		1 : Logon,
-		2 : Logout,
-		3 : Heartbeat,
-		4 : RiskControlRequest,
-		5 : RiskControlResponse,
-	},
-		@calculatedFrom(""CRC32"")
-	u32 Ckecksum `" ++ [26657; 39564; 21644]%N ++ runes_of_ascii "`,
-}
+    o { 
 
-packet Logon {
-	 @leftPad('0')
-	char[10] UserName `" ++ [29992; 25143; 21517]%N ++ runes_of_ascii "`,
-	string Password `" ++ [23494; 30721]%N ++ runes_of_ascii "`,
-	uint64 ClientId `" ++ [23458; 25143; 31471]%N ++ runes_of_ascii "ID`,
-	u16 HeartbeatInterval `" ++ [24515; 36339; 38388; 38548]%N ++ runes_of_ascii "`,
-}
+    //	t
+    @calculatedFrom(""CRC32"") string
+    // `tick` ""quote"" 'q'
+	  body
+	@lengthOf(int
+    )
 
-packet Logout {
-	  @rightPad('0')
-	char[10] UserName `" ++ [29992; 25143; 21517]%N ++ runes_of_ascii "`,
-	uint64 ClientId `" ++ [23458; 25143; 31471]%N ++ runes_of_ascii "ID`,
-}
-
-packet Heartbeat {
-}
-
-packet RiskControlRequest {
-	string UniqueOrderId `" ++ [21807; 19968; 35746; 21333; 21495]%N ++ runes_of_ascii "`,
-	char[16] ClOrdID `" ++ [23458; 25143; 35746; 21333; 21495]%N ++ runes_of_ascii "`,
-	char[3] MarketID `" ++ [24066; 22330]%N ++ runes_of_ascii "id`,
-	char[12] SecurityID `" ++ [35777; 21048; 20195; 30721]%N ++ runes_of_ascii "`,
-	char Side `" ++ [20080; 21334; 26041; 21521]%N ++ runes_of_ascii "`,
-	char OrderType `" ++ [35746; 21333; 31867; 22411]%N ++ runes_of_ascii "`,
-	u64 Price `" ++ [20215; 26684]%N ++ runes_of_ascii "`,
-	u32 Qty `" ++ [25968; 37327]%N ++ runes_of_ascii "`,
-	repeat string ExtraInfo `" ++ [38468; 21152; 20449; 24687]%N ++ runes_of_ascii "`,
-	repeat SubOrder {
-			char[16] ClOrdID `" ++ [23376; 35746; 21333; 21495]%N ++ runes_of_ascii "`,
-			u64 Price `" ++ [23376; 35746; 21333; 20215; 26684]%N ++ runes_of_ascii "`,
-			u32 Qty `" ++ [23376; 35746; 21333; 25968; 37327]%N ++ runes_of_ascii "`,
-		},
-}
-
-packet RiskControlResponse {
-	string UniqueOrderId `" ++ [21807; 19968; 35746; 21333; 21495]%N ++ runes_of_ascii "`,
-	i32 Status `" ++ [29366; 24577]%N ++ runes_of_ascii "`,
-	string Msg `" ++ [32467; 26524; 20449; 24687]%N ++ runes_of_ascii "`,
-	repeat Detail,
-}
-
-packet Detail {
-	string RuleName `" ++ [35268; 21017; 21517; 31216]%N ++ runes_of_ascii "`,
-	u16 Code `" ++ [21407; 22240; 20195; 30721]%N ++ runes_of_ascii "`,
-}")).
-Eval vm_compute in ("<<<M1465>>>" ++ check (runes_of_ascii "options {
-    StringPrefixLenType = u8;
-    ArrayPrefixLenType = u32;
-    FixedStringPadFromLeft = false;
-    FixedStringPadChar = ' ';
-}
-packet Party {
-    repeat i16 Qty,
-    repeat string Tail,
-    i8 OrderId,
-    i8 msgKind,
-}
-packet Ack {
-    Party,
-    repeat InRef20 {
-        Party,
-        int8 tag7,
-        char[5] OrderId,
-        zchar[7] Tail,
-        char[] count,
-        InPrice45 {
-            Party,
-            char[1] Px,
-        },
-    },
-    char[12] price,
-    int8 sym,
-}
-packet Reject {
-    repeat InPrice47 {
-        Party,
-    },
-    zchar[4] x,
-    repeat Ack,
-    zchar[2] Ref,
-    repeat Party,
-}
-packet Cancel {
-    Reject,
-    repeat string f1,
-    uint16 OrderId,
-    u8 Acct,
-    int8 msgKind,
-}
-root packet Fill {
-    u8 count,
-    char[] tag7,
-    zchar[7] Acct,
-    u32 OrderId,
-    u32 Note @lengthOf(Body),
-    match OrderId as Body {
-        106 : Cancel,
-        196 : Reject,
-        74 : Party,
-        75 : Ack,
-    },
-}
-")).
-Eval vm_compute in ("<<<M1475>>>" ++ check (runes_of_ascii "// top
-options // c0
-{
-    // c1
-LittleEndian
-    // c2
-= // c3
-true // c4
-;
-    // c5
-} // c6a
-  // c6b
-packet Logon { u8 // c10a
-  // c10b
-x
-    // c11
-, // c12
-} packet Logout
-    // c15
-{ // c16a
-  // c16b
-u16 reason // c18
+`line1
+line2`
+,u64 
+      // " ++ [128512]%N ++ runes_of_ascii " emoji
+crc
+    `
+`
+    ,  BodyLength
+@lengthOf(Header
+    ) 
 ,
-    // c19
-}
-    // c20
-root // c21a
-  // c21b
-packet // c22a
-  // c22b
-Frame // c23
-{ i32
-    // c25
-Kind ,
-    // c27
-i32 // c28a
-  // c28b
-Kind2 // c29
-, // c30
-match // c31
-Kind
-    // c32
-as // c33a
-  // c33b
-Body
-    // c34
-{ 1 // c36a
-  // c36b
-:
-    // c37
-Logon // c38
-, // c39
-[ 2 // c41a
-  // c41b
-, // c42a
-  // c42b
-3 // c43
-, // c44
-4
-    // c45
-]
-    // c46
-:
-    // c47
-Logout // c48
-,
-    // c49
-100 // c50a
-  // c50b
-:
-    // c51
-Logon , // c53a
-  // c53b
-} // c54
-, // c55
-match // c56
-Kind2 as
-    // c58
-Trailer
-    // c59
-{ // c60
-0 // c61
-: // c62
-Logout // c63
-,
-    // c64
-} , } ")).
-Eval vm_compute in ("<<<M1998>>>" ++ check (runes_of_ascii "packet chars {
-}// c
 
-packet len {
-    repeat char[] Foo,
-    @rightPad('0')
-    zchar[007] a1 `say ""hi""`,
-    repeat BodyLength leftPad,
-}
+tag
 
-root packet u8x {
-    f64 lengthOf @calculatedFrom(""CRC32""),
-    string zchar @lengthOf(int) `crlf
-    line`,
-    int calculatedFrom,
-    @lengthOf(As)
-    match falsey as asx {
-        65535 : _x,
-        [1] : u,
-        007 : uint8x,
-        00 : f32a,
-        """ ++ [233]%N ++ runes_of_ascii "t" ++ [233]%N ++ runes_of_ascii """ : Packet,
-        [42, ""a\""b""] : len,
+    @lengthOf(matchKey )
+, char[	255 ]
+
+repeatCount
+
+    `doc`
+,
+@lengthOf(Logon
+	)
+string 
+A 
+@calculatedFrom(
+
+    """ ++ [128512]%N ++ runes_of_ascii """
+)
+
+`it's`
+	,  a1 
+Foo
+	    /// triple
+  , //
+
+} 
+options  {T	=
+false
+} 	 //")).
+Eval vm_compute in ("<<<M3734>>>" ++ check (runes_of_ascii "packet Foo {
+    calculatedFrom @calculatedFrom(""\n"") `// not a comment`,
+    repeat char[] uint8x `" ++ [28040; 24687; 31867; 22411]%N ++ runes_of_ascii "`,
+    options1 @calculatedFrom(""it's""),
+    int64 a1,
+    @tag(00)
+    match lengthOf as int {
+        ""a\""b"" : msg_type,
     },
     @lengthOf(stringy)
-    @calculatedFrom(""1"")
-    repeat A {
-        char[] lengthOf `it's`,
+    metadata @calculatedFrom(""" ++ [233]%N ++ runes_of_ascii "t" ++ [233]%N ++ runes_of_ascii """),
+    repeat zchar {
+        char[255] u8x,
+        repeat zchar,
+        match f32a as pack {
+            ""// no comment"" : a1,
+        },
     },
-    _x `" ++ [28040; 24687; 31867; 22411]%N ++ runes_of_ascii "`,
-    @leftPad('0')
-    match Foo as crc {
-        10 : trueish,
-        42 : Pad,
-        [4294967296, ""// no comment"", ""{,}""] : float,
-    },
-    @lengthOf(u8x)
-    a1 @calculatedFrom(""\" ++ [233]%N ++ runes_of_ascii """),
-}")).
-Eval vm_compute in ("<<<M39>>>" ++ check (runes_of_ascii "  options
-    {string_
-    //x
-    =char[ 7 ] ;} options { crc=float64 ; Logon
-    = false // a // b
-As
-    =
-    '0' f32a =
-char[] ; // packet A { u8 x, }
-T =
-00	}	root
-packet x { @calculatedFrom(
-""1"" )repeat zchar[
-    255
-] // " ++ [128512]%N ++ runes_of_ascii " emoji
-string_ , } root packet int {	@tag(4294967296) char[255 // packet A { u8 x, }
-]
-a1
-    ,repeat
-x ``, char[]  packetx
-@lengthOf( uint8x ) `u8 x,` , zchar[ 10 ]leftPad @calculatedFrom( ""a	b"" )
-, lengthOf @calculatedFrom( """"	) , @calculatedFrom(
-    /// triple
-    ""packet"" )
-    i32 matchKey , @rightPad (
-) zchar[ 1
-] A, u32
-Packet @calculatedFrom( ""{,}"" ) `a\`	,// c
-repeat char[00]Header	`say ""hi""`
-    //x
-    , stringy	trueish `// not a comment`, } 	 ")).
-Eval vm_compute in ("<<<M2010>>>" ++ check (runes_of_ascii "packet
-    i64_{
-    }
-    packet
-	crc 
-{
-} options
-    {  } root	packet	charz
-	{
+}// @lengthOf(
 
-} packet//
-  trueish
-{
-repeat char[
-
-    255
-
-    ] lengthOf
-
-`" ++ [28040; 24687; 31867; 22411]%N ++ runes_of_ascii "` ,
-zchar[
-
-//	t
-	  /// triple
-    	00	// a // b
-
-]
-	x
-`it's`,	/// triple
-
-	repeat char[] 
-// `tick` ""quote"" 'q'
-  Packet
-`say ""hi""` 
-,@calculatedFrom(""x y"" // " ++ [27880; 37322]%N ++ runes_of_ascii "
-
-	) char[	1
-	]
-lengthOf	,
-    lengthOf `crlf
-line`,match charz
-as  MetaDataX
-
-{ ""a	b""
-
-    // " ++ [27880; 37322]%N ++ runes_of_ascii "
-// `tick` ""quote"" 'q'
-:  uint8x
-""\n"" :
-
-calculatedFrom } 
-,  @tag(
-10  ) float64
-	i8i8 @calculatedFrom(  """ ++ [128512]%N ++ runes_of_ascii """
-) `say ""hi""`,
-
-    @rightPad
-	( '\x00'  ) i32
-
-Foo `it's` ,
-	} ")).
-Eval vm_compute in ("<<<M1422>>>" ++ check (runes_of_ascii "packet u128
-    // c1
-{ // c2
-u8 // c3a
-  // c3b
-a , // c5a
-  // c5b
-} // c6
-root
-    // c7
-packet
-    // c8
-Msg // c9a
-  // c9b
-{ // c10
-u8 // c11
-k
-    // c12
-, // c13
-u24 // c14a
-  // c14b
-{ // c15
-u8 Hi
-    // c17
-, // c18a
-  // c18b
-u16
-    // c19
-Lo
-    // c20
-, // c21
-} , // c23a
-  // c23b
-repeat // c24a
-  // c24b
-i24 // c25
-{
-    // c26
-u32
-    // c27
-q
-    // c28
-,
-    // c29
-} , u128 // c32
-,
-    // c33
-u16
-    // c34
-float32x // c35a
-  // c35b
-, string // c37
-s , // c39a
-  // c39b
-} ")).
-Eval vm_compute in ("<<<M373>>>" ++ check (runes_of_ascii "root	packet chars
-{ falsey , uint64 f32a @lengthOf( lengthOf
-) , // c
-}MetaData T{ char[] As ,
-} // trailing space 
-packet
-tag {
-    i64
-    Foo @lengthOf(
-    a1 ),@calculatedFrom(""" ++ [128512]%N ++ runes_of_ascii """ ) @leftPad ( '\x00'// " ++ [128512]%N ++ runes_of_ascii " emoji
-)
-    // a // b
-    @leftPad('\x00')
-repeat Foo MetaDataX , } root
-packet body {
-repeat u64
-    MetaDataX `u8 x,` ,
-@rightPad
-    (
-    ' ' )
-charz	@lengthOf(matchKey ) ,	@calculatedFrom(
-""""
-    )len @lengthOf(tag )
-, }
-")).
-Eval vm_compute in ("<<<M1509>>>" ++ check (runes_of_ascii "options {
-    len = 255
-    tag = """ ++ [233]%N ++ runes_of_ascii "t" ++ [233]%N ++ runes_of_ascii """
+root packet Packet {
 }
 
-packet packetx {
+packet float {
+    @calculatedFrom(""" ++ [233]%N ++ runes_of_ascii "t" ++ [233]%N ++ runes_of_ascii """)
+    x_y_z,
+    char[3] x_y_z @calculatedFrom(""a\\"") `" ++ [28040; 24687; 31867; 22411]%N ++ runes_of_ascii "`,
+    @tag(10)
+    u16 Header @lengthOf(zchar) `crlf
+    line`,
+    @lengthOf(charz)
+    repeat trueish {
+        metadata @lengthOf(falsey),
+        repeat char[] uint8x `tab	here`,
+        int64 rootA `" ++ [233]%N ++ runes_of_ascii "`,
+        repeat crc {
+            match i8i8 as T {
+                [""// no comment"", ""CRC32"", """ ++ [28040; 24687]%N ++ runes_of_ascii """] : zchar,
+                [4294967296] : BodyLength,
+                ""\n"" : _x,
+                4294967296 : BodyLength,
+            },
+            body `" ++ [233]%N ++ runes_of_ascii "`,
+            repeat metadata zchar,
+            repeat f32 crc `// not a comment`,
+        },
+    },// 50% %s
+    @leftPad()
+    char[] Pad `" ++ [28040; 24687; 31867; 22411]%N ++ runes_of_ascii "`,
+    repeat calculatedFrom BodyLength,
+    match _x as int {
+        ""{,}"" : trueish,
+        42 : x_y_z,
+        [7] : tag,
+    },
+    @leftPad()
+    u8x {
+        repeat char[42] matchKey,
+        char[65535] len @lengthOf(roots),
+        crc,
+        char[0123456789] len @lengthOf(leftPad),
+    },
+    //
+    repeat int64 calculatedFrom `" ++ [28040; 24687; 31867; 22411]%N ++ runes_of_ascii "`,
+    repeat repeatCount rootA,
+}
+
+packet a1 {
+    /// triple
+}")).
+Eval vm_compute in ("<<<M3662>>>" ++ check (runes_of_ascii "
+packet 
+tag
+{
+stringy	@calculatedFrom( 
+""a\\"") ``  // trailing space 
+	,
+	@calculatedFrom(""" ++ [128512]%N ++ runes_of_ascii """) 
+zchar[
+	007] uint8x
+
+,
+zchar[ 255 ] 
+matchKey ,@leftPad	(
+'\x00'
+
+)
+
+char[] tag
+
+    `{ , }`	,match
+    len
+
+    as
+
+    stringy
+{
+    ""\" ++ [233]%N ++ runes_of_ascii """:
+	calculatedFrom 
+        //
+	,} , 
+Packet  @lengthOf(i64_ ), /// triple
+	repeat
+
+uint16	leftPad
+`" ++ [233]%N ++ runes_of_ascii "`
+    , } 
+    /// triple
+  	// 50% %s
+root packet	a1 
+{
+repeat 
+T  
+      // @lengthOf(
+
+// 50% %s
+	  options1 `{ , }`
+, @lengthOf(
+
+    x_y_z
+	)	@calculatedFrom(
+""// no comment""
+)
+    @tag(
+
+007
+) lengthOf
+
+{
+
+    zchar[ 10 ] 
+Pad
+	`{ , }`
+, chars 
+{	repeat char[ 
+4294967296  ]  int
+    ,
+string
+    repeatCount
+,
+
+char[]stringy @lengthOf( repeatCount)
+, o 
+, }
+	,uint8
+	roots 
+@lengthOf( uint8x 
+) , 
+} ,asx
+
+    `100% of %d` ,
+	repeat 
+repeatCount
+``
+
+    , 
+@rightPad(
+) 
+@calculatedFrom(  
+      //
+	  ""a\\"" )
+    @lengthOf(  u128 ) repeat  asx
+	_x`// not a comment`
+	,  @lengthOf( Foo 
+)char[
+    1
+]trueish 	 // @lengthOf(
+@lengthOf( _x 
+),
+    @tag(	3 ) char[]  chars 
+// trailing space 
+	  // " ++ [27880; 37322]%N ++ runes_of_ascii "
+	@lengthOf(
+options1 ) ,
+@calculatedFrom(
+""// no comment"" 
+        // @lengthOf(
+	) 
+Pad	uint8x //	t
+    `crlf
+line`
+, 
+@tag(
+	007
+)repeat Packet
+Pad 
+,
+@tag( 
+7 )	repeat int32
+    MetaDataX
+
+`// not a comment`,
+
+    } MetaData Z9_	{ 
+    // c
+  uint32
+int	`a\`
+,	char[]  repeatCount
+, _x
+	falsey
+`tab	here`, }")).
+Eval vm_compute in ("<<<M4387>>>" ++ check (runes_of_ascii "packet
+
+    int
+{  falsey {  repeat Header{ As
+    roots
+    `100% of %d` // a // b
+    , // trailing space 
+		tag
+	x_y_z `line1
+line2` ,match
+
+zchar	as repeatCount
+
+    {
+
+    ""abc"" :_x ,
+
+    } 
+,//x
+		}
+,
+repeatCount @lengthOf(
+    charz ),
+    repeat	char[]
+
+calculatedFrom 
+    // @lengthOf(
+
+`// not a comment` , }	, 
+
+    // " ++ [128512]%N ++ runes_of_ascii " emoji
+char
+
+pack 
+	// " ++ [27880; 37322]%N ++ runes_of_ascii "
+	`" ++ [233]%N ++ runes_of_ascii "`
+
+,repeat
+int8
+u128	,x
+	i8i8
+
+,
+	@tag(
+007
+    )
+	char[ 1
+
+    ]//	t
+  	uint8x
+,
+	@lengthOf(
+	roots
+	)
+repeat
+pack	trueish,repeat
+u8x
+stringy, 
+options1
+    { match uint8x  as T
+
+    {
+	""" ++ [128512]%N ++ runes_of_ascii """
+
+:crc  ""a\""b"" :
+
+u8x ,
+
+    },
+zchar[ 7 
+]BodyLength
+, } ,
+    @tag( 4294967296
+//	t
+  )@rightPad(
+
+    )  
+  // `tick` ""quote"" 'q'
+    u128 `line1
+line2`
+
+,
+	}
+root packet// @lengthOf(
+  	f32a	{  @leftPad 
+  /// triple
+  (  )
+match
+i8i8 as 
+options1  { 	 // `tick` ""quote"" 'q'
+    """" 	 // trailing space 
+    	: u8x	,} ,	@tag(
+	1
+
+)
+	repeatCount
+@calculatedFrom( ""a\""b""
+    )  ,  @lengthOf(
+
+MetaDataX
+
+    ) @leftPad
+(
+
+    )
+charz repeatCount
+
+`a\`
+
+    ,  calculatedFrom{	BodyLength
+
+@calculatedFrom(	""a\\""	// c
+    ),}
+	, @lengthOf(  zchar )
+	zchar[	00 // " ++ [27880; 37322]%N ++ runes_of_ascii "
+  ]len
+	// 50% %s
+  	// 50% %s
+
+`line1
+line2` 
+// " ++ [128512]%N ++ runes_of_ascii " emoji
+    // a // b
+,@tag(
+	1
+)
+	i64 charz 
+,
+	}")).
+Eval vm_compute in ("<<<M4495>>>" ++ check (runes_of_ascii "options {
+    charz = f64;
+}
+
+packet int {
+    match x_y_z as int {
+        [""a\""b"", 3, """ ++ [128512]%N ++ runes_of_ascii """] : Foo,
+        ""\" ++ [233]%N ++ runes_of_ascii """ : pack,
+        ""a	b"" : body,
+        255 : pack,
+        65535 : float,
+        // packet A { u8 x, }
+        // 50% %s
+        [""" ++ [128512]%N ++ runes_of_ascii """, """"] : leftPad,
+    },
+    u16 T @calculatedFrom(""\n""),
+    @tag(42)
+    repeat int {
+        repeat u8 len,
+        char[00] options1 `crlf
+        line`,
+    },
+    repeat i64 charz,
+    @leftPad('0')
+    @lengthOf(Header)
+    repeat pack MetaDataX,
+    @leftPad(' ')
+    @lengthOf(float)
+    @tag(65535)
+    repeat int16 a1,
+    repeat int {
+        match repeatCount as zchar {
+            """ ++ [233]%N ++ runes_of_ascii "t" ++ [233]%N ++ runes_of_ascii """ : u8x,
+            0 : charz,
+            [7] : chars,
+            [
+                ""a\""b"", 3, 3, """", ""a\""b"",
+                ""it's"", 7, 007
+            ] : msg_type,
+            //	t
+        },
+        char[255] As @calculatedFrom(""1""),
+    },
+}
+
+packet pack {
+    falsey x,
+    @tag(10)
+    string i8i8 @lengthOf(pack),
+    @leftPad('0')
+    repeat pack `crlf
+    line`,
+    @calculatedFrom(""" ++ [128512]%N ++ runes_of_ascii """)
+    @rightPad()
+    i8i8 @calculatedFrom(""`tick`""),
 }
 
 options {
-    repeatCount = '\x00';
-    x = 4294967296
-    len = false;
-    A = false;
-    Packet = """";
+    charz = '\x00'
+    uint8x = '\x00';
+    As = '0'
+}")).
+Eval vm_compute in ("<<<M1157>>>" ++ check (runes_of_ascii "packet  trueish{ u16 trueish , @calculatedFrom(
+    ""abc"" )f64 MetaDataX @calculatedFrom( ""\" ++ [233]%N ++ runes_of_ascii """ //	t
+),  match
+    len // " ++ [27880; 37322]%N ++ runes_of_ascii "
+as
+Logon{ 65535: string_
+    ,
+    """ ++ [233]%N ++ runes_of_ascii "t" ++ [233]%N ++ runes_of_ascii """
+// 50% %s
+//	t
+: // `tick` ""quote"" 'q'
+u128 ,
+    [007 , 0123456789
+// a // b
+//
+]:
+string_
+    }
+,@lengthOf( string_ )int8 repeatCount	, @leftPad ( //
+) roots x
+    // a // b
+    , string //	t
+chars
+`crlf
+line`,
+u	u128 ,
+@calculatedFrom( ""`tick`""
+)	u16 asx @lengthOf( // trailing space 
+i8i8) ,	string
+//	t
+// 50% %s
+leftPad `doc`	,  f32
+falsey , }options {stringy =
+""1""
+    // trailing space 
+    ; float = // a // b
+i64
+; calculatedFrom = ""it's""// a // b
+;
+Z9_= ""// no comment"" // trailing space 
+; }packet	Pad{// @lengthOf(
+leftPad repeatCount`a\` ,
+zchar[ 0 ]
+chars , }
+packet charz { match As as Header  { 42:As ,} , @calculatedFrom(
+""\" ++ [233]%N ++ runes_of_ascii """ // 50% %s
+)
+//x
+// packet A { u8 x, }
+@tag( 42) @rightPad ( '0' )repeat Packet x , body	asx , //x
+float64 MetaDataX
+//	t
+// c
+, body
+    //x
+    stringy ,
+    match Header as uint8x {
+    ""x y"": i8i8 255
+    /// triple
+    : trueish, """ ++ [28040; 24687]%N ++ runes_of_ascii """ : rootA , ""packet"" :trueish, } ,
+}
+")).
+Eval vm_compute in ("<<<M783>>>" ++ check (runes_of_ascii "  packet Logon
+{ i64_, }packet falsey
+    {repeat uint32  x, @calculatedFrom( """ ++ [128512]%N ++ runes_of_ascii """ )  repeat
+    i64 rootA , @tag( 1
+) u64 Header`
+` ,	@rightPad
+    (
+    // " ++ [128512]%N ++ runes_of_ascii " emoji
+    ' ' ) i8  crc @lengthOf( lengthOf)
+,
+//x
+// trailing space 
+match MetaDataX
+as u128 {1  :
+    u ,	""x y""
+:// c
+u, 255
+:i64_""x y"" :falsey ,
+    [ ""1""
+    , 1 ]:
+    repeatCount ,	} , @calculatedFrom(
+    """") metadata@calculatedFrom(
+""\n"" )`u8 x,` , } options {Logon
+// a // b
+//	t
+=// packet A { u8 x, }
+char[] ;
+}
+root packet  options1 {  int16 BodyLength , @tag(  3
+) tag	repeatCount `
+`
+, @calculatedFrom(
+/// triple
+// 50% %s
+""x y""
+    )
+    zchar[ 0123456789
+]
+crc `
+`
+,
+match // packet A { u8 x, }
+A
+as
+    trueish {""\n"" :	zchar }  ,x@lengthOf(o) , @leftPad
+( '\x00'  ) int8 asx
+`" ++ [233]%N ++ runes_of_ascii "`	, i8 rootA //x
+,string
+    //	t
+    int
+@lengthOf( stringy ) , char[] Foo
+    `" ++ [233]%N ++ runes_of_ascii "`//
+, match int as repeatCount { 0123456789
+: f32a 00 : // c
+asx 1 :Z9_,
+""1""// packet A { u8 x, }
+:
+// packet A { u8 x, }
+// " ++ [128512]%N ++ runes_of_ascii " emoji
+charz//	t
+7 :i64_ [
+0123456789
+,""a\\"" ]: o ,	}	,}")).
+Eval vm_compute in ("<<<M227>>>" ++ check (runes_of_ascii "root
+packet i8i8
+    {  @tag(1 )char[ 3 ] i8i8, @lengthOf( T
+) uint16 Packet,
+    chars @lengthOf( int ) , @tag(
+    4294967296 )
+x ,	repeat zchar[ /// triple
+00
+    ] metadata,@calculatedFrom(
+""" ++ [28040; 24687]%N ++ runes_of_ascii """
+) u64 string_ `crlf
+line` , char[
+    0123456789]	falsey
+@lengthOf(Logon )
+, @tag( 0)leftPad packetx, @calculatedFrom(""`tick`"") u
+{ i64_@calculatedFrom( ""// no comment""	)
+    `// not a comment` ,repeat rootA { float32 options1 ,repeat u8x roots , // @lengthOf(
+int16  charz//	t
+`crlf
+line` , zchar[ 7
+] Logon
+,} , char[]
+Z9_ `
+` , }, repeat Pad
+lengthOf
+,} packet x {	} // c
+MetaData BodyLength {int16 stringy `u8 x,`
+    ,uint8 lengthOf , Foo
+zchar ,body lengthOf `100% of %d`// packet A { u8 x, }
+, body options1 // @lengthOf(
+`a\`,char[ 1] int`doc`,
+// `tick` ""quote"" 'q'
+//
+} packet packetx {
+i8
+a1
+@lengthOf(
+Z9_
+// trailing space 
+// @lengthOf(
+), zchar[ 1 ] Pad @calculatedFrom( ""CRC32""
+) , } options{
+pack
+=
+// @lengthOf(
+//x
+int16 ;} // " ++ [128512]%N ++ runes_of_ascii " emoji")).
+Eval vm_compute in ("<<<M4352>>>" ++ check (runes_of_ascii "options {u8x = '0'  ;
+
+stringy 
+=
+    ""x y""  lengthOf
+= true//
+      ; //x
+  _x 
+= 007 
+	    // trailing space 
+  	//
+  A
+    =
+    '0'
+; }
+    root
+
+    packet
+stringy{	repeat uint16
+len
+    `tab	here`	,@tag(	7	) @calculatedFrom( 
+""" ++ [28040; 24687]%N ++ runes_of_ascii """	) i16
+    // @lengthOf(
+// " ++ [128512]%N ++ runes_of_ascii " emoji
+  msg_type
+    `
+` ,	// a // b
+		repeat repeatCount// trailing space 
+{
+
+    repeat
+pack // trailing space 
+msg_type
+
+`tab	here`,
+match
+    repeatCount as  // trailing space 
+
+	_x
+{	""`tick`""
+
+: trueish,  [
+	""\n""
+, 65535 ,
+
+255
+
+    ,""abc""
+    , 0123456789
+]  :
+
+// c
+
+  // " ++ [27880; 37322]%N ++ runes_of_ascii "
+  options1 	 // c
+
+, },  } 
+,  @rightPad 	 // @lengthOf(
+    ( ' '
+	)  f64 
+Z9_
+
+    , int32 BodyLength	// c
+	`two words`,
+
+@calculatedFrom( ""a\\""
+
+    )char[
+    255
+]  // `tick` ""quote"" 'q'
+  lengthOf  , f64
+Foo
+,
+	char[
+    1 ]	// c
+
+	Z9_ , 
+repeat 
+roots  // packet A { u8 x, }
+    uint8x , }
+
+packet
+    Header  /// triple
+      { }
+
+")).
+Eval vm_compute in ("<<<M3545>>>" ++ check (runes_of_ascii "options {
+    LittleEndian = true;
+    StringPrefixLenType = u32;
+    ArrayPrefixLenType = u16;
+}
+packet Party {
+    repeat char[1] seqNo,
+    char[] Qty,
+    zchar[2] tag7,
+}
+packet Logon {
+    Party,
+    char[] msgKind,
+    repeat char[3] OrderId,
+}
+root packet Reject {
+    zchar[5] lastPx,
+    InFlags86 {
+        Party,
+        string OrderId,
+        repeat InFlags75 {
+            repeat string Side2,
+            uint8 Flags,
+            zchar[8] Ref,
+            repeat char[4] Tail,
+            repeat char[1] price,
+        },
+    },
+    InMsgkind60 {
+        repeat string lastPx,
+        u32 msgKind,
+        zchar[9] tag7,
+        zchar[1] seqNo,
+        u64 OrderId,
+    },
+    zchar[6] Note,
+    repeat InF148 {
+        char[7] sym,
+    },
+    zchar[9] clOrdID,
+    u8 Ref,
+    match Ref as Body {
+        [81, 118] : Party,
+        104 : Logon,
+    },
+}
+")).
+Eval vm_compute in ("<<<M667>>>" ++ check (runes_of_ascii "//x
+packet
+    // c
+    roots { } options
+// " ++ [128512]%N ++ runes_of_ascii " emoji
+// @lengthOf(
+{
+Header =
+    zchar[ 4294967296
+] ;
+    crc	=""a\\""
+//x
+// packet A { u8 x, }
+; o =
+    // " ++ [128512]%N ++ runes_of_ascii " emoji
+    ""a	b"" } root// @lengthOf(
+packet Header// `tick` ""quote"" 'q'
+{ charz , repeat Logon { repeat o
+`doc`
+, repeatCount {
+    matchKey {
+match Pad as lengthOf{  4294967296
+/// triple
+// trailing space 
+: //	t
+repeatCount , 3 : leftPad } ,
+Z9_ @calculatedFrom( """ ++ [233]%N ++ runes_of_ascii "t" ++ [233]%N ++ runes_of_ascii """ )
+`two words`
+    ,
+    match
+msg_type as
+    Logon{	3 :options1 }, repeat i64_ // 50% %s
+tag`line1
+line2`
+, }
+    , }
+,
+// " ++ [128512]%N ++ runes_of_ascii " emoji
+// a // b
+i64 //	t
+f32a `two words` , u @lengthOf( matchKey )// 50% %s
+`a\`	, } ,int8
+    // packet A { u8 x, }
+    packetx
+    ,
+    // packet A { u8 x, }
+    }	MetaData i64_{
+uint16 body ,}options
+{ u8x = 1; len = char[007 ] ; _x
+//x
+// a // b
+= """ ++ [128512]%N ++ runes_of_ascii """ } // " ++ [27880; 37322]%N)).
+Eval vm_compute in ("<<<M3900>>>" ++ check (runes_of_ascii "  packet 	 //x
+	  matchKey{ @lengthOf(
+
+    u8x  ) 
+    // 50% %s
+  //
+	  packetx  @calculatedFrom(
+    ""1"")
+
+    ,
+repeat
+
+    string MetaDataX  ,
+}	root packet Foo 
+{  @lengthOf( As	) x  charz ,  }packet a1
+    //x
+	  // packet A { u8 x, }
+
+{
+	match 
+Packet// 50% %s
+	  as
+    Packet
+{ ""it's""
+: 
+zchar ,
+
+    }
+
+,
+
+    @tag( 255
+
+)@calculatedFrom( ""packet"") 
+u32
+	repeatCount
+// trailing space 
+,  string  stringy
+
+`it's`
+, f64	a1 ``, 
+  //	t
+// " ++ [27880; 37322]%N ++ runes_of_ascii "
+    i64
+trueish
+
+,
+
+repeat
+float{
+
+    int32 charz	@lengthOf(
+falsey // `tick` ""quote"" 'q'
+		) 
+`100% of %d`
+    , }
+
+    ,
+
+repeat
+f64 	 // " ++ [128512]%N ++ runes_of_ascii " emoji
+    x
+
+,uint32 
+body
+	,
+}root packet	rootA
+    {
+match  //	t
+
+	Z9_
+    as
+rootA
+
+    { ""{,}""
+	: As """ ++ [233]%N ++ runes_of_ascii "t" ++ [233]%N ++ runes_of_ascii """:
+i64_
+1
+	: 
+charz ""\" ++ [233]%N ++ runes_of_ascii """
+	: pack  , // trailing space 
+} , 
+}")).
+Eval vm_compute in ("<<<M4376>>>" ++ check (runes_of_ascii "
+packet tag {@rightPad  (
+)
+repeat
+    options1 T	`a\`,@calculatedFrom(
+""it's""
+
+    )/// triple
+float64 
+// packet A { u8 x, }
+
+	// `tick` ""quote"" 'q'
+  float  `100% of %d` , @rightPad	(
+
+'0'
+    )
+Foo	//	t
+    repeatCount , 	 // a // b
+	  repeat
+
+    float
+
+    pack
+
+    `line1
+line2` 
+
+    // packet A { u8 x, }
+	,	// a // b
+	@leftPad
+    (  )
+match
+Foo
+
+as 
+    //x
+  // " ++ [128512]%N ++ runes_of_ascii " emoji
+
+MetaDataX	// 50% %s
+    	{ 
+// " ++ [128512]%N ++ runes_of_ascii " emoji
+	""" ++ [233]%N ++ runes_of_ascii "t" ++ [233]%N ++ runes_of_ascii """	: f32a, 00 :
+
+roots
+	,  [ ""a\\""]:	BodyLength
+
+}  ,
+    int16 
+	    // " ++ [128512]%N ++ runes_of_ascii " emoji
+//	t
+	body , /// triple
+
+match
+    // `tick` ""quote"" 'q'
+roots
+as Z9_
+{  65535  //	t
+  :
+tag
+	, [	""it's"" ,255
+    ]
+
+    :  // `tick` ""quote"" 'q'
+Foo }
+
+, // @lengthOf(
+
+leftPad`{ , }`
+
+    ,
+
+f64
+	chars
+
+    `a\`
+,
 }
 
-MetaData x {
-    //
-    // `tick` ""quote"" 'q'
-    uint32 roots,
-    lengthOf o `
-    `,
-    u32 x_y_z `line1
-    line2`,
-    int64 msg_type `crlf
-    line`,
-    string repeatCount `line1
-    line2`,
-    u128 stringy,
-}")).
-Eval vm_compute in ("<<<M320>>>" ++ check (runes_of_ascii "packet Pad { int16 charz `` ,
-    @calculatedFrom(""a\""b"" // `tick` ""quote"" 'q'
-)
-    @tag(	1  )
-    zchar[ //	t
-4294967296
+")).
+Eval vm_compute in ("<<<M4084>>>" ++ check (runes_of_ascii "
+options
+
+{
+	}
+	options 
+{ A
+	=
+	' '
+; } options	{
+        // trailing space 
+	chars	= ' ' 
+    // c
     // packet A { u8 x, }
-    ] A, @rightPad () chars , // " ++ [27880; 37322]%N ++ runes_of_ascii "
-uint8x { zchar[
-0  ] // @lengthOf(
-zchar // " ++ [27880; 37322]%N ++ runes_of_ascii "
-`tab	here`
-, msg_type f32a ,u8 roots@calculatedFrom(""x y""  ) `crlf
-line`, /// triple
-As rootA
-// " ++ [27880; 37322]%N ++ runes_of_ascii "
-//
-, } , }
-")).
-Eval vm_compute in ("<<<M1205>>>" ++ check (runes_of_ascii "// top
-packet // c0a
-  // c0b
-o // c1
-{ // c2a
-  // c2b
-@tag( // c3a
-  // c3b
-42 // c4a
-  // c4b
-)
-    // c5
-repeat
-    // c6
-x { char[ // c9a
-  // c9b
-0123456789 // c10
-] // c11a
-  // c11b
-i64_ // c12a
-  // c12b
-,
-    // c13
-} ,
-    // c15
-} options // c17a
-  // c17b
-{ // c18a
-  // c18b
-} // c19a
-  // c19b
-")).
-Eval vm_compute in ("<<<M1820>>>" ++ check (runes_of_ascii "
-root packet rootA { @leftPad
+i64_= 
+  //x
+	' '
 
+    chars	= string
+} // 50% %s
+packet 
+msg_type	{ int32 leftPad
+    `say ""hi""` ,
+@rightPad
 (
-'\x00' 	 // `tick` ""quote"" 'q'
-	)@lengthOf( crc )	@lengthOf(
-	string_
-    )
-    uint16
-    Z9_ `
-` 
-,
+    ' '
+)
+@lengthOf( o  // @lengthOf(
 
-    @lengthOf(
-	Z9_  ) 
-char[ 4294967296
+)
+@calculatedFrom(
+	""abc"" )
+f64 
+zchar
+@calculatedFrom(  ""it's""
+
+)
+`crlf
+line`,leftPad
+    {
+    match stringy
+    as
+
+    f32a{[ 7 ,
+    3  ,42
+
+,	""" ++ [128512]%N ++ runes_of_ascii """
+    ,
+""{,}"" 
+]	: f32a ,4294967296:
+int 	 // trailing space 
+
+  ,
+	1
+:string_  ,  } , match matchKey as i8i8
+
+{
+[ 	 //
+	1,
+""`tick`"" ] :
+u8x 
+,
+	007 
+: 	 // `tick` ""quote"" 'q'
+
+_x 
+, [ 
+0123456789 
+]
+
+:
+    _x  // c
+,}
+
+,},
+
+f64
+Pad
+@lengthOf(
+
+    trueish
+)
+
+    ,
+} ")).
+Eval vm_compute in ("<<<M3874>>>" ++ check (runes_of_ascii "root
+    packet 	 //x
+    matchKey
+
+{	// " ++ [27880; 37322]%N ++ runes_of_ascii "
+	}
+	root	packet 
+string_  {
+
+    Z9_  {
+	zchar[ 1
+]
+	Packet //x
+  ,f64
+    x
+
+@calculatedFrom( 
+  // trailing space 
+    //	t
+    	""a	b"" // 50% %s
+    )
+	`" ++ [233]%N ++ runes_of_ascii "`
+, }
+, } MetaData  int
+{  uint32
+x
+`doc` ,
+
+    }
+MetaData
+    MetaDataX{
+
+    uint32
+
+    calculatedFrom
+
+    `a\`, f64	calculatedFrom `" ++ [28040; 24687; 31867; 22411]%N ++ runes_of_ascii "`
+
+    , u16
+
+    Foo, lengthOf	metadata  ,
+    char[65535
 
     ]
-zchar`say ""hi""` ,  u
-    ,
-match 
-int as
 
-stringy
+    matchKey 
+    // `tick` ""quote"" 'q'
+  ,
+//
+	//x
+  char[
+    7 ]
+charz`// not a comment`,
+	} 
+options
 
-    {	3
-    :
-body	,
-    } 
-, }
+    { zchar
+    =""x y""; 
+repeatCount 
+    /// triple
+		// @lengthOf(
+	=
+false
+    lengthOf =
+    007  // packet A { u8 x, }
+	  ; 
+}
 ")).
-Eval vm_compute in ("<<<M1125>>>" ++ check (runes_of_ascii "// top
-packet // c0
-Logon // c1
-{ // c2
-@tag( // c3
-42 // c4
-) // c5
-@rightPad // c6
-( // c7
-' ' // c8
-) // c9
-@leftPad // c10
-( // c11
-) // c12
-repeat // c13
-trueish // c14
-{ // c15
-string // c16
-T // c17
-, // c18
-} // c19
-, // c20
-} // c21
-")).
-Eval vm_compute in ("<<<M544>>>" ++ check (runes_of_ascii "options
-{
-matchKey = 42/// triple
-x='0' ;
-// packet A { u8 x, }
-//
-charz
-=
-// packet A { u8 x, }
-// trailing space 
-true  ; } MetaData BodyLength
-{
-uint8
-pack,zchar[ 1]float ,  float32 x_y_z `` ,u32
-_x options i16 body  , }
-")).
-Eval vm_compute in ("<<<M409>>>" ++ check (runes_of_ascii "options
-{
-matchKey = match/// triple
-x='0' ;
-// packet A { u8 x, }
-//
-charz
-=
-// packet A { u8 x, }
-// trailing space 
-true  ; } MetaData BodyLength
-{
-uint8
-pack,zchar[ 1]float ,  float32 x_y_z `` ,u32
-_x,i16 body  , }
-")).
-Eval vm_compute in ("<<<M580>>>" ++ check (runes_of_ascii "options
-{
-matchKey = 42/// triple
-x='0' ;
-// packet A { u8 x, }
-//
-charz
-=
-// packet A { u8 x, }
-// trailing space 
-true  ; } MetaData BodyLength
-{
-uint8
-pack,zchar[ 1]float ,  float32 x_y_z `` ,u32
-_x,i16 " ++ [127]%N ++ runes_of_ascii " body  , }
-")).
-Eval vm_compute in ("<<<M438>>>" ++ check (runes_of_ascii "options
-{
-matchKey = 42/// triple
-x='0' ;
-// packet A { u8 x, }
-//
-charz
-true
-// packet A { u8 x, }
-// trailing space 
-=  ; } MetaData BodyLength
-{
-uint8
-pack,zchar[ 1]float ,  float32 x_y_z `` ,u32
-_x,i16 body  , }
-")).
-Eval vm_compute in ("<<<M446>>>" ++ check (runes_of_ascii "options
-{
-matchKey = 42/// triple
-x='0' ;
-// packet A { u8 x, }
-//
-charz
-=
-// packet A { u8 x, }
-// trailing space 
-true   } MetaData BodyLength
-{
-uint8
-pack,zchar[ 1]float ,  float32 x_y_z `` ,u32
-_x,i16 body  , }
-")).
-Eval vm_compute in ("<<<M501>>>" ++ check (runes_of_ascii "options
-{
-matchKey = 42/// triple
-x='0' ;
-// packet A { u8 x, }
-//
-charz
-=
-// packet A { u8 x, }
-// trailing space 
-true  ; } MetaData BodyLength
-{
-uint8
-pack,zchar[ 1] ,  float32 x_y_z `` ,u32
-_x,i16 body  , }
-")).
-Eval vm_compute in ("<<<M1395>>>" ++ check (runes_of_ascii "packet orderItem
-    // c1
-{ // c2
-u8 // c3a
-  // c3b
-a
-    // c4
+Eval vm_compute in ("<<<M4266>>>" ++ check (runes_of_ascii "
+
+  // a // b
+	packet
+Pad{ char
+
+uint8x@lengthOf(Z9_	)
 ,
-    // c5
-} root packet // c8
-newOrder // c9a
-  // c9b
+    @tag(
+42	)
+@calculatedFrom(
+
+    ""it's"")
+	@leftPad
+	(	'\x00'
+	)
+float
+
+    @lengthOf(
+int)
+, char[//x
+	1
+]
+
+MetaDataX @calculatedFrom(
+    ""packet"" // trailing space 
+  )  `100% of %d` , string
+
+o
+@calculatedFrom(
+""" ++ [128512]%N ++ runes_of_ascii """//
+    	)	// trailing space 
+
+  ,	int64 asx
+@calculatedFrom(""CRC32""	)
+,
+
+}
+	MetaData 
+Logon{
+char[42]
+    rootA
+    `say ""hi""`, int32
+a1 ,
+
+    repeatCount options1 ,  char[] BodyLength
+
+,
+	Foo
+	x,
+    char[
+
+00
+
+    ]
+repeatCount
+, 
+} 
+options
 {
-    // c10
-orderItem // c11a
-  // c11b
-, // c12
-u8
+
+    pack
+	=""" ++ [128512]%N ++ runes_of_ascii """ pack =42 ;  //
+  options1=
+
+    ""it's"" u
+= u16 
+// c
+;
+float  =
+
+string	} 
+    // @lengthOf(
+")).
+Eval vm_compute in ("<<<M4409>>>" ++ check (runes_of_ascii "
+// " ++ [27880; 37322]%N ++ runes_of_ascii "
+
+  root  packet
+calculatedFrom  {
+
+    metadata
+
+    ,  @calculatedFrom( /// triple
+    ""\n""  ) string
+i8i8  `say ""hi""`
+,float64	/// triple
+  roots
+
+`two words` ,match 
+a1
+as
+
+    float
+	{[42	] 
+: options1  """"
+    :
+	msg_type , [ ""x y"" , 4294967296	,  00
+,  ""abc"", """ ++ [233]%N ++ runes_of_ascii "t" ++ [233]%N ++ runes_of_ascii """	]
+:  Logon
+
+,
+}
+
+    ,}
+packet leftPad
+{
+
+    @leftPad (
+
+)match A as u  { ""packet""	:  a1  ,// packet A { u8 x, }
+}
+    ,stringy{ 
+match
+o as
+
+    int {	[// " ++ [128512]%N ++ runes_of_ascii " emoji
+	00
+    , 
+4294967296,  ""it's"" ,1 	 // trailing space 
+  , 3	, 
+"""" ]
+: 
+A	007
+    :// c
+    uint8x
+    , }
+,
+a1 f32a, } ,asx
+        // packet A { u8 x, }
+	As
+
+,}")).
+Eval vm_compute in ("<<<M3896>>>" ++ check (runes_of_ascii "
+
+  packet
+    Z9_  // c1
+	{	// c2a
+	// c2b
+  	repeat 
+        // c3
+  int8 T 	 // c5a
+  	// c5b
+,  // c6
+  	}	// c7a
+  // c7b
+	options
+
+    { f32a =
+        // c11
+    	i16
+	// c12
+  	Packet 
     // c13
-x // c14
-, } ")).
-Eval vm_compute in ("<<<M1421>>>" ++ check (runes_of_ascii "packet u128 {
+
+=' ' MetaDataX 	 // c16
+	  =
+
+""it's"" 	 // c18a
+// c18b
+
+;// c19a
+
+	// c19b
+    a1
+	    // c20
+  =
+
+    // c21
+  	""" ++ [233]%N ++ runes_of_ascii "t" ++ [233]%N ++ runes_of_ascii """
+// c22
+
+	;  // c23
+	MetaDataX
+=	// c25a
+	// c25b
+
+	""// no comment""// c26a
+// c26b
+}  // c27a
+
+	// c27b
+		MetaData
+    matchKey	// c29
+  {	// c30
+    	zchar[// c31
+1  // c32a
+	// c32b
+  ]// c33a
+	// c33b
+		MetaDataX	// c34a
+
+// c34b
+,} 	 // c36a
+// c36b")).
+Eval vm_compute in ("<<<M4009>>>" ++ check (runes_of_ascii "  packet
+
+body
+
+    { repeat
+    msg_type{
+len 	 //x
+		`" ++ [233]%N ++ runes_of_ascii "`
+
+,  roots@calculatedFrom(
+
+// a // b
+  ""// no comment""
+)
+
+    `it's`, match
+    o as u
+{
+3:int
+    }
+	,
+u32
+	msg_type
+
+    `doc`
+
+, // `tick` ""quote"" 'q'
+
+  }
+    , repeat
+zchar[ 4294967296
+
+] asx 
+`u8 x,`
+,
+	    // " ++ [27880; 37322]%N ++ runes_of_ascii "
+	//x
+    char[] As
+@calculatedFrom(
+""" ++ [28040; 24687]%N ++ runes_of_ascii """
+)
+,// a // b
+  zchar[007
+	]  metadata
+    `tab	here`
+, int16
+As
+	,} 
+packet  Pad
+
+{
+
+A
+	{zchar[ 10
+
+    ]	As  @calculatedFrom( ""a\""b""  )  ,  // 50% %s
+    repeat
+
+u8
+
+    o  ,
+}
+    , } packet rootA 
+{
+repeat  _x
+
+msg_type, }
+")).
+Eval vm_compute in ("<<<M1392>>>" ++ check (runes_of_ascii "
+options// packet A { u8 x, }
+{ }
+root	packet	x { }
+packet tag { } packet
+Logon {
+    @rightPad (	)
+    zchar[00 ] u8x
+@calculatedFrom( ""it's""
+// `tick` ""quote"" 'q'
+// @lengthOf(
+)`it's` ,// `tick` ""quote"" 'q'
+zchar[ 4294967296
+    ]//x
+trueish @calculatedFrom( ""it's"")
+    `tab	here`
+, // @lengthOf(
+@calculatedFrom( ""\" ++ [233]%N ++ runes_of_ascii """) @calculatedFrom( """ ++ [233]%N ++ runes_of_ascii "t" ++ [233]%N ++ runes_of_ascii """ ) u32
+options1 `" ++ [233]%N ++ runes_of_ascii "` ,
+    @tag( 7 ) msg_type @lengthOf(stringy
+// a // b
+// " ++ [27880; 37322]%N ++ runes_of_ascii "
+)
+    ,
+    char[ 007] asx `two words` ,//
+@lengthOf( T ) @rightPad ( '\x00' )
+    o	chars,  } root packet asx  { }
+")).
+Eval vm_compute in ("<<<M602>>>" ++ check (runes_of_ascii "MetaData
+    MetaDataX {int8
+calculatedFrom,i8i8 leftPad , float32
+    // " ++ [128512]%N ++ runes_of_ascii " emoji
+    leftPad
+    , char[] f32a ,// packet A { u8 x, }
+repeatCount f32a
+, len As
+    ,  } packet	i64_ { @lengthOf( Header ) @rightPad	( )
+    @tag( 255 )	match
+    msg_type
+as o { ""`tick`"": u8x	, 4294967296 :	x_y_z""{,}"": x_y_z,
+//	t
+// a // b
+007 : float ""it's"" :
+    pack	, 0123456789: len , } ,}
+packet
+    BodyLength {BodyLength// packet A { u8 x, }
+@calculatedFrom( ""x y""	) ,@tag(
+    0
+    )repeat uint16 // packet A { u8 x, }
+options1
+    , }
+")).
+Eval vm_compute in ("<<<M3433>>>" ++ check (runes_of_ascii "packet Z9_ // c1
+{ // c2a
+  // c2b
+repeat
+    // c3
+int8 T // c5a
+  // c5b
+, // c6
+} // c7a
+  // c7b
+options { f32a =
+    // c11
+i16
+    // c12
+Packet
+    // c13
+= ' ' MetaDataX // c16
+= ""it's"" // c18a
+  // c18b
+; // c19a
+  // c19b
+a1
+    // c20
+=
+    // c21
+""" ++ [233]%N ++ runes_of_ascii "t" ++ [233]%N ++ runes_of_ascii """
+    // c22
+; // c23
+MetaDataX = // c25a
+  // c25b
+""// no comment"" // c26a
+  // c26b
+} // c27a
+  // c27b
+MetaData matchKey // c29
+{ // c30
+zchar[ // c31
+1 // c32a
+  // c32b
+] // c33a
+  // c33b
+MetaDataX // c34a
+  // c34b
+, } // c36a
+  // c36b
+")).
+Eval vm_compute in ("<<<M199>>>" ++ check (runes_of_ascii "// " ++ [128512]%N ++ runes_of_ascii " emoji
+packet x {@tag(
+42
+    )@tag( 42 )
+@rightPad // c
+() int16 uint8x, int32 float,  Header Header
+,@lengthOf(  float
+    //	t
+    ) repeat string calculatedFrom `two words` ,
+    }MetaData
+    body { } packet
+A {
+@tag( 0123456789 ) match
+Logon
+as trueish
+    {
+    0123456789	:float [
+/// triple
+//	t
+255,
+    ""a\\""
+    ]
+    // a // b
+    : charz ,
+    // a // b
+    [
+""CRC32"" ,
+""CRC32""
+    ] : Packet , 4294967296 :Logon, [ 1 ]	: chars
+    // " ++ [27880; 37322]%N ++ runes_of_ascii "
+    ,	} //x
+,//x
+}
+")).
+Eval vm_compute in ("<<<M4420>>>" ++ check (runes_of_ascii "options{	a1 = 00 
+}
+	root
+packet roots
+{zchar[65535	]
+    T
+`tab	here`
+
+    , 	 // @lengthOf(
+uint8
+
+repeatCount	, 
+@lengthOf(
+	chars )
+@calculatedFrom(	""\" ++ [233]%N ++ runes_of_ascii """)
+match 	 //
+roots
+    as MetaDataX
+{	""""
+: Z9_ 
+,}
+	,	} 
+MetaData  repeatCount	// @lengthOf(
+{
+
+    string
+_x
+    , zchar[ 0
+
+]body
+    ,float64 
+Pad`" ++ [233]%N ++ runes_of_ascii "`
+
+,  
+      // 50% %s
+    // c
+}packet // " ++ [27880; 37322]%N ++ runes_of_ascii "
+    a1  {
+u32
+    Z9_	, }	packet 
+x_y_z	{
+	repeat
+
+    packetx
+
+`// not a comment`,
+
+}
+")).
+Eval vm_compute in ("<<<M925>>>" ++ check (runes_of_ascii "packet o { len `line1
+line2`,
+// " ++ [128512]%N ++ runes_of_ascii " emoji
+// packet A { u8 x, }
+match// `tick` ""quote"" 'q'
+MetaDataX
+    // a // b
+    as MetaDataX {""CRC32"" :	matchKey
+// c
+// @lengthOf(
+, },
+} MetaData crc // c
+{ calculatedFrom
+metadata , int32 msg_type ,}
+    MetaData len{char[0
+    ]Pad
+`u8 x,` ,	} packet MetaDataX { } MetaData	tag	{ char[	3
+] matchKey  , Pad
+BodyLength , uint64 leftPad`a\` ,
+f64
+uint8x`tab	here`
+    ,crc
+calculatedFrom
+`" ++ [233]%N ++ runes_of_ascii "` , }
+")).
+Eval vm_compute in ("<<<M652>>>" ++ check (runes_of_ascii "packet
+    /// triple
+    leftPad {
+    stringy
+    @calculatedFrom(	""\" ++ [233]%N ++ runes_of_ascii """
+) `say ""hi""`
+,
+    @rightPad ( '0'
+)
+    @tag( 4294967296)
+    lengthOf@calculatedFrom( ""a	b"" ) ,
+// packet A { u8 x, }
+//	t
+repeat i32
+trueish //	t
+`line1
+line2`
+,
+    // `tick` ""quote"" 'q'
+    } // " ++ [27880; 37322]%N ++ runes_of_ascii "
+packet zchar {repeat
+// a // b
+// 50% %s
+string x ,
+}
+    options // `tick` ""quote"" 'q'
+{ u8x = 0; A = ""x y"" roots =
+char ;
+    packetx = false ;}
+")).
+Eval vm_compute in ("<<<M4182>>>" ++ check (runes_of_ascii "packet Frame {
+    u8 HK,
+    u8 BK,
+    u8 TK,
+    match HK as Hdr {
+        1 : HdrA,
+        2 : HdrB,
+    },
+    match BK as Body {
+        1 : BodyA,
+        2 : BodyB,
+    },
+    match TK as Trl {
+        1 : TrlA,
+    },
+}
+
+packet HdrA {
     u8 a,
 }
+
+packet HdrB {
+    u16 b,
+}
+
+packet BodyA {
+    u32 c,
+}
+
+packet BodyB {
+    u64 d,
+}
+
+packet TrlA {
+    u8 e,
+}
+
+root packet Msg {
+    Frame,
+    u8 x,
+}")).
+Eval vm_compute in ("<<<M1250>>>" ++ check (runes_of_ascii "packet tag { @rightPad
+    ( ' '
+    // packet A { u8 x, }
+    )	zchar  packetx
+    ,
+    // packet A { u8 x, }
+    repeat
+asx{ zchar[ 10
+    // trailing space 
+    ]
+Header ``  ,
+}
+,	string_ x_y_z , // @lengthOf(
+@tag( 7)@leftPad( )float64 metadata`
+`
+,
+    @lengthOf(Foo) Packet
+matchKey `{ , }`
+, repeat falsey, Foo u
+`// not a comment`
+,
+int32 BodyLength@calculatedFrom(""\" ++ [233]%N ++ runes_of_ascii """	)`it's`
+,
+}")).
+Eval vm_compute in ("<<<M3465>>>" ++ check (runes_of_ascii "// top
+options // c0
+{ LittleEndian = // c3
+true // c4a
+  // c4b
+; // c5a
+  // c5b
+} packet B // c8a
+  // c8b
+{ u8
+    // c10
+a
+    // c11
+, // c12
+string s // c14
+, // c15
+} // c16
+root // c17a
+  // c17b
+packet // c18
+P // c19
+{ // c20
+u16 // c21a
+  // c21b
+L
+    // c22
+@lengthOf( // c23
+B // c24
+) , // c26a
+  // c26b
+B // c27a
+  // c27b
+, // c28
+u8 // c29a
+  // c29b
+t , } ")).
+Eval vm_compute in ("<<<M158>>>" ++ check (runes_of_ascii "
+root packet u8x { } packet	a1
+    { uint8 len //	t
+`u8 x,`,	@lengthOf(	uint8x // c
+)
+repeat uint16	_x ,@tag(
+007
+//
+//x
+)// @lengthOf(
+match  tag as roots  {
+65535: leftPad
+,""packet""
+    // a // b
+    : x
+, [	255 , ""abc"" , ""a	b"" , 00 , 1 ,// trailing space 
+""" ++ [233]%N ++ runes_of_ascii "t" ++ [233]%N ++ runes_of_ascii """
+    ,
+""" ++ [233]%N ++ runes_of_ascii "t" ++ [233]%N ++ runes_of_ascii """ , ""1""
+    ] : Z9_,""{,}""
+:
+f32a	3 : stringy	, """ ++ [28040; 24687]%N ++ runes_of_ascii """
+    :
+options1 , } //	t
+, } // c")).
+Eval vm_compute in ("<<<M730>>>" ++ check (runes_of_ascii "
+options { Foo	=
+    /// triple
+    int16
+    ;trueish
+    = ""a\""b"" }options{
+stringy// a // b
+=
+    true ;	} packet BodyLength  { lengthOf{  repeat i8 asx ``
+    ,char[ 0123456789 ]
+    charz @calculatedFrom(
+    ""it's""
+    )/// triple
+`" ++ [233]%N ++ runes_of_ascii "`, crc repeatCount`" ++ [233]%N ++ runes_of_ascii "` , match Pad as calculatedFrom
+    //x
+    { // @lengthOf(
+42
+    : a1 ,
+    } , } , }
+")).
+Eval vm_compute in ("<<<M4118>>>" ++ check (runes_of_ascii "root packet _x {
+    match x_y_z as o {
+        [0, 65535] : stringy,
+        ""{,}"" : string_,
+    },
+}
+
+MetaData x_y_z {
+    BodyLength u8x `line1
+    line2`,
+}
+
+packet chars {
+    @tag(3)
+    f64 options1 `// not a comment`,
+    string tag @lengthOf(BodyLength),
+    @tag(42)
+    @tag(0)
+    @tag(65535)
+    zchar[10] u128 `" ++ [28040; 24687; 31867; 22411]%N ++ runes_of_ascii "`,
+}")).
+Eval vm_compute in ("<<<M4330>>>" ++ check (runes_of_ascii "root packet o {
+    @tag(65535)
+    // c
+    rootA @calculatedFrom(""a	b"") `two words`,
+    // a // b
+}
+
+// a // b
+root packet Foo {
+    @lengthOf(x_y_z)
+    @tag(0123456789)
+    //x
+    @calculatedFrom(""" ++ [128512]%N ++ runes_of_ascii """)
+    i8i8,
+    f32 int,
+    @calculatedFrom(""it's"")
+    i64 MetaDataX @calculatedFrom(""x y"") ``,
+}
+
+packet zchar {
+}")).
+Eval vm_compute in ("<<<M537>>>" ++ check (runes_of_ascii "  root packet A  { @lengthOf(
+float
+)
+roots	, char[ 4294967296
+    ]
+Z9_
+    `100% of %d` , matchKey// @lengthOf(
+{repeat char[] // trailing space 
+repeatCount	`" ++ [28040; 24687; 31867; 22411]%N ++ runes_of_ascii "`
+,} , i8
+    // trailing space 
+    Header @lengthOf(u128 )
+// a // b
+//	t
+, char[] roots
+    // a // b
+    , } root packet string_
+{
+} //	t")).
+Eval vm_compute in ("<<<M4545>>>" ++ check (runes_of_ascii "MetaData BodyLength {
+    pack i64_ `a\`,
+    body a1,
+    int64 Pad,
+    f64 Z9_,
+    string falsey `
+    `,
+    charz u,
+    // `tick` ""quote"" 'q'
+}
+
+options {
+    stringy = i32;
+}
+
+root packet x {
+}
+
+MetaData A {
+    i32 i8i8,
+    asx int,
+    msg_type int,
+    // " ++ [128512]%N ++ runes_of_ascii " emoji
+    string uint8x,
+}")).
+Eval vm_compute in ("<<<M714>>>" ++ check (runes_of_ascii "options{ Z9_ =  ""`tick`""	;zchar	= char[ 10]	} MetaData matchKey{ MetaDataX //x
+zchar,
+    /// triple
+    charz
+chars`crlf
+line`, metadata BodyLength	`it's`
+    // " ++ [128512]%N ++ runes_of_ascii " emoji
+    , int16 zchar`line1
+line2` // packet A { u8 x, }
+, int64
+_x `say ""hi""` ,	char[
+    7	]	packetx /// triple
+,}
+")).
+Eval vm_compute in ("<<<M277>>>" ++ check (runes_of_ascii "// @lengthOf(
+options
+    {
+} packet roots { } root
+packet charz{ @leftPad( /// triple
+'\x00' ) char[4294967296 ]falsey
+@lengthOf( rootA )
+    //	t
+    `it's`	,	@rightPad //	t
+( ) // " ++ [128512]%N ++ runes_of_ascii " emoji
+@lengthOf(
+    tag ) @tag(
+65535)  int64 x_y_z
+    /// triple
+    @lengthOf( T
+    ),}
+")).
+Eval vm_compute in ("<<<M1937>>>" ++ check (runes_of_ascii "packet	packetx { // trailing space 
+x_y_z
+{
+string
+charz ,
+string x// @lengthOf(
+`two words`
+    ,  u8x { // `tick` ""quote"" 'q'
+charz `100% of %d` // packet A { u8 x, }
+,}// " ++ [27880; 37322]%N ++ runes_of_ascii "
+, ,} , }
+    // a // b
+    packet metadata {  @leftPad ( '0') repeat i32 options1 ,u64 uint8x , }
+")).
+Eval vm_compute in ("<<<M1878>>>" ++ check (runes_of_ascii "packet	packetx { // trailing space 
+x_y_z
+{
+string
+, charz
+string x// @lengthOf(
+`two words`
+    ,  u8x { // `tick` ""quote"" 'q'
+charz `100% of %d` // packet A { u8 x, }
+,}// " ++ [27880; 37322]%N ++ runes_of_ascii "
+,} , }
+    // a // b
+    packet metadata {  @leftPad ( '0') repeat i32 options1 ,u64 uint8x , }
+")).
+Eval vm_compute in ("<<<M2023>>>" ++ check (runes_of_ascii "packet	packetx { // trailing space 
+x_y_z
+{
+string
+charz ,
+string x// @lengthOf(
+`two words`
+    ,  u8x { // `tick` ""quote"" 'q'
+charz `100% of %d` // packet A { u8 x, }
+,}// " ++ [27880; 37322]%N ++ runes_of_ascii "
+,} , }
+    // a // b
+    packet metadata {  @leftPad ( '0') repeat i32 options1 ,u64 uint8x } ,
+")).
+Eval vm_compute in ("<<<M4455>>>" ++ check (runes_of_ascii "
+
+  packet	calculatedFrom { 
+@calculatedFrom( ""a\\"")  zchar[4294967296  ]
+    calculatedFrom
+	@lengthOf(  pack )  `100% of %d`	,char[]body @calculatedFrom(
+	""// no comment""  ),
+@tag(007 
+) //x
+leftPad
+	`it's`
+,
+	repeat
+    pack {
+repeat
+char[
+
+3
+    ]
+
+    body 
+,  } , 
+} ")).
+Eval vm_compute in ("<<<M1886>>>" ++ check (runes_of_ascii "packet	packetx { // trailing space 
+x_y_z
+{
+string
+charz ,
+ x// @lengthOf(
+`two words`
+    ,  u8x { // `tick` ""quote"" 'q'
+charz `100% of %d` // packet A { u8 x, }
+,}// " ++ [27880; 37322]%N ++ runes_of_ascii "
+,} , }
+    // a // b
+    packet metadata {  @leftPad ( '0') repeat i32 options1 ,u64 uint8x , }
+")).
+Eval vm_compute in ("<<<M319>>>" ++ check (runes_of_ascii "MetaData A	{ zchar[ 0123456789]len ,
+len float // " ++ [27880; 37322]%N ++ runes_of_ascii "
+`it's` , int16 rootA
+`" ++ [233]%N ++ runes_of_ascii "`
+    // packet A { u8 x, }
+    ,
+_x len`100% of %d`	,}
+options {i64_
+=true ; } options {stringy
+    // c
+    = // @lengthOf(
+'\x00' } packet pack {  } options
+{  chars = ""a\""b""
+} /// triple")).
+Eval vm_compute in ("<<<M2152>>>" ++ check (runes_of_ascii "packet// packet A { u8 x, }
+repeatCount	{// packet A { u8 x, }
+@leftPad ( '\x00'
+) repeat u8x MetaDataX `crlf
+line`,
+    repeat
+    char[] MetaDataX
+    ,
+u64	uint8x@calculatedFrom(""a\""b""
+// c
+// packet A { u8 x, }
+char[ `tab	here`
+,//
+}MetaData pack
+    {
+    }
+")).
+Eval vm_compute in ("<<<M2204>>>" ++ check (runes_of_ascii "packet// packet A { u8 x, }
+repeatCount	{// packet A { u8 x, }
+@leftPad ( '\x00'
+) repeat u8x MetaDataX `crlf
+line`,
+    repeat
+    char[] MetaDataX
+    ,
+u64	uint8x@calculatedFrom(""a\""b""
+// c
+// packet A { u8 x, }
+) `tab	here`
+,//
+}Meta@xData pack
+    {
+    }
+")).
+Eval vm_compute in ("<<<M2087>>>" ++ check (runes_of_ascii "packet// packet A { u8 x, }
+repeatCount	{// packet A { u8 x, }
+@leftPad ( '\x00'
+) uint64 u8x MetaDataX `crlf
+line`,
+    repeat
+    char[] MetaDataX
+    ,
+u64	uint8x@calculatedFrom(""a\""b""
+// c
+// packet A { u8 x, }
+) `tab	here`
+,//
+}MetaData pack
+    {
+    }
+")).
+Eval vm_compute in ("<<<M2159>>>" ++ check (runes_of_ascii "packet// packet A { u8 x, }
+repeatCount	{// packet A { u8 x, }
+@leftPad ( '\x00'
+) repeat u8x MetaDataX `crlf
+line`,
+    repeat
+    char[] MetaDataX
+    ,
+u64	uint8x@calculatedFrom(""a\""b""
+// c
+// packet A { u8 x, }
+) `tab	here`
+//
+}MetaData pack
+    {
+    }
+")).
+Eval vm_compute in ("<<<M1489>>>" ++ check (runes_of_ascii "packet calculatedFrom
+{ @calculatedFrom( ""a\\"" ) zchar[ 4294967296 ]
+calculatedFrom@lengthOf( pack )	`100% of %d` ,char[] char[]body@calculatedFrom( ""// no comment"" )  ,
+@tag( 007) //x
+int8
+leftPad`it's` , repeat pack
+    { repeat char[ 3] body
+,},
+}")).
+Eval vm_compute in ("<<<M1617>>>" ++ check (runes_of_ascii "packet calculatedFrom
+{ @calculatedFrom( ""a\\"" ) zchar[ 4294967296 ]
+@tag calculatedFrom@lengthOf( pack )	`100% of %d` ,char[]body@calculatedFrom( ""// no comment"" )  ,
+@tag( 007) //x
+int8
+leftPad`it's` , repeat pack
+    { repeat char[ 3] body
+,},
+}")).
+Eval vm_compute in ("<<<M1514>>>" ++ check (runes_of_ascii "packet calculatedFrom
+{ @calculatedFrom( ""a\\"" ) zchar[ 4294967296 ]
+calculatedFrom@lengthOf( pack )	`100% of %d` ,char[]body@calculatedFrom( ""// no comment"" )  , ,
+@tag( 007) //x
+int8
+leftPad`it's` , repeat pack
+    { repeat char[ 3] body
+,},
+}")).
+Eval vm_compute in ("<<<M1624>>>" ++ check (runes_of_ascii "packet c" ++ [127]%N ++ runes_of_ascii "alculatedFrom
+{ @calculatedFrom( ""a\\"" ) zchar[ 4294967296 ]
+calculatedFrom@lengthOf( pack )	`100% of %d` ,char[]body@calculatedFrom( ""// no comment"" )  ,
+@tag( 007) //x
+int8
+leftPad`it's` , repeat pack
+    { repeat char[ 3] body
+,},
+}")).
+Eval vm_compute in ("<<<M1505>>>" ++ check (runes_of_ascii "packet calculatedFrom
+{ @calculatedFrom( ""a\\"" ) zchar[ 4294967296 ]
+calculatedFrom@lengthOf( pack )	`100% of %d` ,char[]body@calculatedFrom( ) ""// no comment""  ,
+@tag( 007) //x
+int8
+leftPad`it's` , repeat pack
+    { repeat char[ 3] body
+,},
+}")).
+Eval vm_compute in ("<<<M1528>>>" ++ check (runes_of_ascii "packet calculatedFrom
+{ @calculatedFrom( ""a\\"" ) zchar[ 4294967296 ]
+calculatedFrom@lengthOf( pack )	`100% of %d` ,char[]body@calculatedFrom( ""// no comment"" )  ,
+@tag( 007 //x
+int8
+leftPad`it's` , repeat pack
+    { repeat char[ 3] body
+,},
+}")).
+Eval vm_compute in ("<<<M492>>>" ++ check (runes_of_ascii "
+MetaData chars { f32
+u128 `{ , }`	,	zchar[
+1 ]	chars , } MetaData x //
+{ u8
+/// triple
+// `tick` ""quote"" 'q'
+pack`u8 x,` , float32 MetaDataX
+    // @lengthOf(
+    `crlf
+line`// @lengthOf(
+,
+string
+Packet ,	char[] Z9_  `` , zchar[3 ]	A , }
+")).
+Eval vm_compute in ("<<<M439>>>" ++ check (runes_of_ascii "packet
+    pack { repeatCount calculatedFrom `line1
+line2` , } root packet  metadata
+    { i16 repeatCount	, match pack
+    as string_{ // " ++ [128512]%N ++ runes_of_ascii " emoji
+10 // " ++ [27880; 37322]%N ++ runes_of_ascii "
+: f32a ,
+}
+    , @leftPad  ( '\x00'  ) int64
+zchar ,}
+packet options1 { //x
+}
+")).
+Eval vm_compute in ("<<<M663>>>" ++ check (runes_of_ascii "// c
+MetaData // trailing space 
+rootA{ }root
+    packet u8x
+    {
+@calculatedFrom(""a\\"" )matchKey calculatedFrom `it's` , repeat zchar[// " ++ [27880; 37322]%N ++ runes_of_ascii "
+4294967296 ]
+    u128 , @rightPad ( )f32 asx
+@calculatedFrom( ""// no comment""	)  , }
+
+")).
+Eval vm_compute in ("<<<M3803>>>" ++ check (runes_of_ascii "// top
+	root  // c0a
+    	// c0b
+    	packet// c1a
+
+  // c1b
+
+P	// c2
+{  // c3a
+  // c3b
+repeat
+string// c5a
+      // c5b
+    ss
+
+    ,
+    // c7
+    repeat
+	u16 	 // c9
+ns  // c10
+,
+    // c11
+    } 	 // c12
+ 
+")).
+Eval vm_compute in ("<<<M1308>>>" ++ check (runes_of_ascii "MetaData  repeatCount
+    // `tick` ""quote"" 'q'
+    { i16 i8i8 `it's`
+,
+}packet
+_x {stringy MetaDataX, } options
+    // a // b
+    { T
+    // c
+    = char[
+    // @lengthOf(
+    0 ]
+    ; Header =""it's"" ;  }")).
+Eval vm_compute in ("<<<M1613>>>" ++ check (runes_of_ascii "packet calculatedFrom
+{ @calculatedFrom( ""a\\"" ) zchar[ 4294967296 ]
+calculatedFrom@lengthOf( pack )	`100% of %d` ,char[]body@calculatedFrom( ""// no comment"" )  ,
+@tag( 007) //x
+int8
+leftPad`it's` ")).
+Eval vm_compute in ("<<<M2191>>>" ++ check (runes_of_ascii "packet// packet A { u8 x, }
+repeatCount	{// packet A { u8 x, }
+@leftPad ( '\x00'
+) repeat u8x MetaDataX `crlf
+line`,
+    repeat
+    char[] MetaDataX
+    ,
+u64	uint8x@calculatedFrom(""a\""b""
+//")).
+Eval vm_compute in ("<<<M3640>>>" ++ check (runes_of_ascii "packet u128 {
+    u8 a,
+}
+
 root packet Msg {
     u8 k,
     u24 {
@@ -1065,262 +2629,467 @@ root packet Msg {
     u128,
     u16 float32x,
     string s,
-}
+}")).
+Eval vm_compute in ("<<<M3519>>>" ++ check (runes_of_ascii "root packet Frame{ u8
+
+    K, Logon
+first  ,
+    match 
+K as Body{
+	1 
+:Logon ,	2:	Logout
+    ,}
+	, }
+    packet
+	Logon
+
+{string
+	user,	} packet
+Logout
+
+{  u16
+
+reason
+
+, }
 ")).
-Eval vm_compute in ("<<<M665>>>" ++ check (runes_of_ascii "// c
-packet i64_ char[]	{ calculatedFrom , } packet
-trueish  {@calculatedFrom(
-""a\\"" ) o { i32 falsey@lengthOf( uint8x ),
-} , } // `tick` ""quote"" 'q'
-options {// c
-Z9_ = ' '//
-}
-")).
-Eval vm_compute in ("<<<M351>>>" ++ check (runes_of_ascii "root packet
-stringy { charz T// " ++ [128512]%N ++ runes_of_ascii " emoji
-`u8 x,` ,	char tag , uint64 u128 ,}
-options { x
-=
-    '0' // `tick` ""quote"" 'q'
-rootA =""CRC32"" ; // " ++ [27880; 37322]%N ++ runes_of_ascii "
-i64_=""a\\"" ; } options{
-}
-// " ++ [27880; 37322]%N ++ runes_of_ascii "
-")).
-Eval vm_compute in ("<<<M374>>>" ++ check (runes_of_ascii "
-packet
-// " ++ [27880; 37322]%N ++ runes_of_ascii "
+Eval vm_compute in ("<<<M4377>>>" ++ check (runes_of_ascii "
+
+  root packet asx {
+
+u64 T
+
+    //
+  	// " ++ [27880; 37322]%N ++ runes_of_ascii "
+	`doc`  , } 
+MetaData
+
+Header 	 // trailing space 
+	{ pack
+o ``	,  }
+    MetaData
+
+repeatCount{
+pack
+	roots
+`" ++ [233]%N ++ runes_of_ascii "`,
+
 // c
-MetaDataX
-{ repeat repeatCount i64_ , T `crlf
-line`,	}packet As
-    {
-    @tag( 10
-) @lengthOf(
-    u8x
-//
-// @lengthOf(
-) zchar[ 7 ] Foo , }
+
+}")).
+Eval vm_compute in ("<<<M1122>>>" ++ check (runes_of_ascii "MetaData //x
+uint8x{ } packet
+int
+    // `tick` ""quote"" 'q'
+    {  @lengthOf( chars ) char[ 007 ]asx, } MetaData MetaDataX {  char[]// packet A { u8 x, }
+f32a , }
 ")).
-Eval vm_compute in ("<<<M1609>>>" ++ check (runes_of_ascii "packet A {
+Eval vm_compute in ("<<<M3633>>>" ++ check (runes_of_ascii "packet repeatCount {
+}
+
+MetaData T {
+    float64 rootA `doc`,// " ++ [128512]%N ++ runes_of_ascii " emoji
+    body MetaDataX,
+    u32 float,
+    uint32 T,
+    char[] _x,
+    uint32 trueish `" ++ [233]%N ++ runes_of_ascii "`,
+}")).
+Eval vm_compute in ("<<<M2373>>>" ++ check (runes_of_ascii "
+packet MetaDataX
+{ {
+    @leftPad
+( // a // b
+'0'
+) i8 u @lengthOf(
+MetaDataX
+    ) `say ""hi""` ,	} MetaData BodyLength {
+    asx
+x_y_z `" ++ [233]%N ++ runes_of_ascii "`
+, uint64 u128 , }
+")).
+Eval vm_compute in ("<<<M4360>>>" ++ check (runes_of_ascii "
+MetaData
+	metadata 
+{ }
+
+    MetaData  rootA
+    {
+    i8
+i64_, 	 // c
+	roots options1`a\`	,  lengthOf Header,Z9_ Foo
+
+    , int16	BodyLength
+    ,
+}
+
+")).
+Eval vm_compute in ("<<<M1639>>>" ++ check (runes_of_ascii "options { { } packet Packet{char[] i64_ ,
+@tag(
+    255) match
+crc as i8i8{""{,}"" : trueish """" : Pad , ""a\\"" :
+Foo ,
+    1 :packetx
+, """ ++ [128512]%N ++ runes_of_ascii """ : trueish , } , }")).
+Eval vm_compute in ("<<<M2424>>>" ++ check (runes_of_ascii "
+packet MetaDataX
+{
+    @leftPad
+( // a // b
+'0'
+) i8 u @lengthOf(
+MetaDataX
+    ) `say ""hi""` ,	} MetaData BodyLength {
+    asx
+x_y_z `" ++ [233]%N ++ runes_of_ascii "`
+, uint64 u128  }
+")).
+Eval vm_compute in ("<<<M1636>>>" ++ check (runes_of_ascii "{ options } packet Packet{char[] i64_ ,
+@tag(
+    255) match
+crc as i8i8{""{,}"" : trueish """" : Pad , ""a\\"" :
+Foo ,
+    1 :packetx
+, """ ++ [128512]%N ++ runes_of_ascii """ : trueish , } , }")).
+Eval vm_compute in ("<<<M1784>>>" ++ check (runes_of_ascii "options { } packet Packet{char[] i64_ ,
+@tag(
+    255) match
+crc as i8i8{""{,}"" : trueish """" : Pad , ""a\\"" :
+Foo ,
+    1 :,
+packetx """ ++ [128512]%N ++ runes_of_ascii """ : trueish , } , }")).
+Eval vm_compute in ("<<<M1787>>>" ++ check (runes_of_ascii "options { } packet Packet{char[] i64_ ,
+@tag(
+    255) match
+crc as i8i8{""{,}"" : trueish """" : Pad , ""a\\"" :
+Foo ,
+    1 :packetx
+ """ ++ [128512]%N ++ runes_of_ascii """ : trueish , } , }")).
+Eval vm_compute in ("<<<M4263>>>" ++ check (runes_of_ascii "root packet calculatedFrom {
+}
+
+MetaData u8x {
+    char[42] pack,
+    zchar[0123456789] stringy,
+    //	t
+    // `tick` ""quote"" 'q'
+    msg_type pack,
+}")).
+Eval vm_compute in ("<<<M1692>>>" ++ check (runes_of_ascii "options { } packet Packet{char[] i64_ ,
+@tag(
+    255) 
+crc as i8i8{""{,}"" : trueish """" : Pad , ""a\\"" :
+Foo ,
+    1 :packetx
+, """ ++ [128512]%N ++ runes_of_ascii """ : trueish , } , }")).
+Eval vm_compute in ("<<<M734>>>" ++ check (runes_of_ascii "MetaData
+// packet A { u8 x, }
+// " ++ [27880; 37322]%N ++ runes_of_ascii "
+msg_type {float32 u128 `
+`  , u8x  u8x
+, x uint8x , o Pad // " ++ [27880; 37322]%N ++ runes_of_ascii "
+`` ,falsey
+    MetaDataX `100% of %d`  , }
+")).
+Eval vm_compute in ("<<<M33>>>" ++ check (runes_of_ascii "packet
+o { @leftPad (// trailing space 
+'\x00'	)
+    // 50% %s
+    char[] roots
+    @lengthOf( repeatCount
+)
+`it's`,} // `tick` ""quote"" 'q'")).
+Eval vm_compute in ("<<<M4285>>>" ++ check (runes_of_ascii "packet A {
     match k as n {
         [
-            ""a"", ""bb"", 007, ""d"", ""e"",
-            66, ""g"", ""h"", 9, ""j""
+            1, 22, ""c c"", 4, 5,
+            ""f"", 7, 8, ""i""
         ] : B,
         2 : C,
     },
 }")).
-Eval vm_compute in ("<<<M249>>>" ++ check (runes_of_ascii "
-options {
-Header
+Eval vm_compute in ("<<<M1391>>>" ++ check (runes_of_ascii "packet trueish	{ char[ 00
+]a1 `
+` ,} packet
+    // " ++ [128512]%N ++ runes_of_ascii " emoji
+    int
+{ @rightPad ( '0'
+)	repeat options1 string_ ,
     // a // b
-    =
-false float
-=
-""abc"" ;
-i64_  = false ;}options // " ++ [128512]%N ++ runes_of_ascii " emoji
+    }")).
+Eval vm_compute in ("<<<M2408>>>" ++ check (runes_of_ascii "
+packet MetaDataX
 {
-//
-//x
-repeatCount
-    =
-    ""a\\"";
-}
-//
+    @leftPad
+( // a // b
+'0'
+) i8 u @lengthOf(
+MetaDataX
+    ) `say ""hi""` ,	} MetaData BodyLength {
+    asx")).
+Eval vm_compute in ("<<<M3268>>>" ++ check (runes_of_ascii "MetaData metadata { } // c
+MetaData rootA { i8 i64_ , roots options1 `a\` , lengthOf Header , Z9_ Foo , int16 BodyLength , }")).
+Eval vm_compute in ("<<<M3300>>>" ++ check (runes_of_ascii "MetaData metadata { } MetaData rootA { i8 i64_ , roots options1 `a\` , lengthOf Header , Z9_ Foo , // c
+int16 BodyLength , }")).
+Eval vm_compute in ("<<<M241>>>" ++ check (runes_of_ascii "
+MetaData float {
+    zchar[7 ] // 50% %s
+roots,  a1 // " ++ [27880; 37322]%N ++ runes_of_ascii "
+leftPad `crlf
+line` , zchar[00 ]
+x_y_z , //x
+leftPad A, }
 ")).
-Eval vm_compute in ("<<<M1624>>>" ++ check (runes_of_ascii "  packet
-
-    Logon  {@tag( 42  )	@rightPad 
-(
-
-    ' ')@leftPad
-
-(
-
-)
-repeat
-
-    trueish
-	{	string  T  // c
-    , } 
-, 
-}
-
-")).
-Eval vm_compute in ("<<<M617>>>" ++ check (runes_of_ascii "MetaData
-    // trailing space 
-    matchKey
-{ u64 chars // a // b
-,char[] char[] lengthOf `// not a comment`
-    , //	t
+Eval vm_compute in ("<<<M3101>>>" ++ check (runes_of_ascii "packet A {
+    match k as n {
+        ""%d%s"" : B,
+        [""%d%s"", 1] : C,
+        [1,2,3,4,5,""%d%s""] : D,
+    },
 }")).
-Eval vm_compute in ("<<<M2016>>>" ++ check (runes_of_ascii "
+Eval vm_compute in ("<<<M3760>>>" ++ check (runes_of_ascii "packet  A {  match	k
+as 
+n{
+
+[ ""a""
+	, 
+""bb"",
+
+    007
+	, ""d""
+,""e""
+    ,  66 ,
+
+    ""g""]
+
+:
+
+B 2
+:
+
+C }, }
+")).
+Eval vm_compute in ("<<<M3339>>>" ++ check (runes_of_ascii "MetaData float { uint8 BodyLength , } MetaData charz { float32
+// c
+trueish `a\` , i16 metadata `say ""hi""` , }")).
+Eval vm_compute in ("<<<M3017>>>" ++ check (runes_of_ascii "packet A {
+  match k as n {
+    [""a"", 22, ""c c"", 4, ""e"", 66, ""g"", 8, ""i"", 10, ""k"", 12] : B,
+    2 : C
+  },
+}")).
+Eval vm_compute in ("<<<M1260>>>" ++ check (runes_of_ascii "packet float { i8i8 { roots @lengthOf( repeatCount ) // packet A { u8 x, }
+,	}  , repeat
+matchKey  , }
+")).
+Eval vm_compute in ("<<<M173>>>" ++ check (runes_of_ascii "
+packet float { @tag(0123456789
+//
+// packet A { u8 x, }
+)
+    repeat
+Pad // 50% %s
+`tab	here`  ,}
+")).
+Eval vm_compute in ("<<<M533>>>" ++ check (runes_of_ascii "  packet tag {repeat char[ 4294967296
+    // 50% %s
+    ] zchar `` , repeat i8i8  _x , } // a // b")).
+Eval vm_compute in ("<<<M2990>>>" ++ check (runes_of_ascii "packet A {
+  match k as n {
+    [1, ""bb"", 007, ""d"", 5, ""f"", 7, ""h"", 9, ""j""] : B
+    2 : C
+  },
+}")).
+Eval vm_compute in ("<<<M3770>>>" ++ check (runes_of_ascii "packet int {
+    char[1] metadata @lengthOf(MetaDataX) `tab	here`,
+    repeat body msg_type,
+}")).
+Eval vm_compute in ("<<<M3749>>>" ++ check (runes_of_ascii "
+
+  options {
+    Foo
+=
+u64 
+A
+=  """"; packetx
+
+= ""`tick`"" float
+    =' ' 
+}	/// triple
+")).
+Eval vm_compute in ("<<<M2093>>>" ++ check (runes_of_ascii "packet// packet A { u8 x, }
+repeatCount	{// packet A { u8 x, }
+@leftPad ( '\x00'
+) repeat")).
+Eval vm_compute in ("<<<M2246>>>" ++ check (runes_of_ascii "MetaData _x {string x `// not a comment` , i64_
+string // trailing space 
+`a\` ,
+    }
+")).
+Eval vm_compute in ("<<<M2936>>>" ++ check (runes_of_ascii "packet A {
+  match k as n {
+    [""a"", ""bb"", ""c c"", ""d"", ""e"", ""f""] : B
+    2 : C
+  },
+}")).
+Eval vm_compute in ("<<<M2968>>>" ++ check (runes_of_ascii "packet A {
+  match k as n {
+    [1, 22, ""c c"", 4, 5, ""f"", 7, 8] : B
+    2 : C
+  },
+}")).
+Eval vm_compute in ("<<<M848>>>" ++ check (runes_of_ascii "MetaData
+roots
+    {} options //x
+{options1
+= '\x00' crc =  string ; Logon='0'
+}
+")).
+Eval vm_compute in ("<<<M4267>>>" ++ check (runes_of_ascii "root packet pack {
+    @calculatedFrom("""")
+    @tag(4294967296)
+    uint8 tag,
+}")).
+Eval vm_compute in ("<<<M205>>>" ++ check (runes_of_ascii "packet packetx  {
+// " ++ [27880; 37322]%N ++ runes_of_ascii "
+//x
+} options	{ o= ' '
+; string_= '0'
+;
+}packet u {}")).
+Eval vm_compute in ("<<<M3372>>>" ++ check (runes_of_ascii "MetaData _x { f64 charz // c
+`tab	here` , } options { BodyLength = """ ++ [233]%N ++ runes_of_ascii "t" ++ [233]%N ++ runes_of_ascii """ ; }")).
+Eval vm_compute in ("<<<M2934>>>" ++ check (runes_of_ascii "packet A {
+  match k as n {
+    [1, 22, 007, 4, 5, 66] : B
+    2 : C
+  },
+}")).
+Eval vm_compute in ("<<<M3884>>>" ++ check (runes_of_ascii "
 MetaData
-Packet
-	{  u128
-u128  `say ""hi""`
+
+M
+	{
+u8 x`a
+    b
+  c`
     ,
 
-// @lengthOf(
-  	zchar 
-len
-,Pad  T	`say ""hi""` 	 // " ++ [128512]%N ++ runes_of_ascii " emoji
-	,  }
-
+    T t  `a
+    b
+  c` ,	}
 ")).
-Eval vm_compute in ("<<<M1696>>>" ++ check (runes_of_ascii "packet orderItem {
-    // c2
-    u8 a,
-    // c5
-}
-
-root packet newOrder {
-    // c10
-    orderItem,// c12
-    u8 x,
+Eval vm_compute in ("<<<M3085>>>" ++ check (runes_of_ascii "packet A {
+    B b `%%d%!`,
+    B `%%d%!`,
+    repeat B bs `%%d%!`,
 }")).
-Eval vm_compute in ("<<<M254>>>" ++ check (runes_of_ascii "options { i8i8= char[]
-    ; } packet
-MetaDataX{ @calculatedFrom( ""x y"" )int32 T `" ++ [28040; 24687; 31867; 22411]%N ++ runes_of_ascii "` ,
-    f64 matchKey
-    , }")).
-Eval vm_compute in ("<<<M616>>>" ++ check (runes_of_ascii "MetaData
-    // trailing space 
-    matchKey
-{ u64 chars // a // b
-, lengthOf `// not a comment`
-    , //	t
-}")).
-Eval vm_compute in ("<<<M910>>>" ++ check (runes_of_ascii "packet A {
-  match k as n {
-    [""a"", 22, ""c c"", 4, ""e"", 66, ""g"", 8, ""i"", 10, ""k"", 12] : B
-    2 : C
-  },
-}")).
-Eval vm_compute in ("<<<M1251>>>" ++ check (runes_of_ascii "// c
-packet calculatedFrom { @tag( 4294967296 ) u msg_type , char[ 3 ] crc @lengthOf( len ) `u8 x,` , }")).
-Eval vm_compute in ("<<<M1284>>>" ++ check (runes_of_ascii "packet calculatedFrom { @tag( 4294967296 ) u msg_type , char[ 3 ] crc @lengthOf( len )
-// c
-`u8 x,` , }")).
-Eval vm_compute in ("<<<M229>>>" ++ check (runes_of_ascii "packet x_y_z { char[
-    // packet A { u8 x, }
-    42 ] A @calculatedFrom( ""`tick`"" ) `it's` , }
+Eval vm_compute in ("<<<M3418>>>" ++ check (runes_of_ascii "packet o { @tag( 4294967296 ) options1 @lengthOf( u8x // c
+) `" ++ [233]%N ++ runes_of_ascii "` , }")).
+Eval vm_compute in ("<<<M1706>>>" ++ check (runes_of_ascii "options { } packet Packet{char[] i64_ ,
+@tag(
+    255) match
+crc")).
+Eval vm_compute in ("<<<M3486>>>" ++ check (runes_of_ascii "root packet
 
-")).
-Eval vm_compute in ("<<<M1130>>>" ++ check (runes_of_ascii "packet // c
-Logon { @tag( 42 ) @rightPad ( ' ' ) @leftPad ( ) repeat trueish { string T , } , }")).
-Eval vm_compute in ("<<<M1162>>>" ++ check (runes_of_ascii "packet Logon { @tag( 42 ) @rightPad ( ' ' ) @leftPad ( ) repeat trueish { string // c
-T , } , }")).
-Eval vm_compute in ("<<<M1813>>>" ++ check (runes_of_ascii "
-packet
-
-    As
-
-{ match  repeatCount 
-as metadata {	007  :	//x
-  crc , ""a	b""
-
-:  A}, }
-")).
-Eval vm_compute in ("<<<M878>>>" ++ check (runes_of_ascii "packet A {
-  match k as n {
-    [1, 22, 007, 4, 5, 66, 7, 8, 9, 10] : B
-    2 : C
-  },
-}")).
-Eval vm_compute in ("<<<M1340>>>" ++ check (runes_of_ascii "
-packet	Inner	{u8 a
-,
-}
-	root
-    packet 
 P
 
-    { 
-Inner 
-ref_obj
-,
-u8
+    {u8 s_u8,	repeat u8 r_u8 
+, 
+u16	b_len, 
+}")).
+Eval vm_compute in ("<<<M1701>>>" ++ check (runes_of_ascii "options { } packet Packet{char[] i64_ ,
+@tag(
+    255) match")).
+Eval vm_compute in ("<<<M3625>>>" ++ check (runes_of_ascii "
+packet
 
-x , 
+    // " ++ [128512]%N ++ runes_of_ascii " emoji
+chars
+{repeat	Header
+chars
+
+,  } ")).
+Eval vm_compute in ("<<<M1348>>>" ++ check (runes_of_ascii "MetaData A
+// c
+// @lengthOf(
+{ }
+    packet leftPad { }")).
+Eval vm_compute in ("<<<M3198>>>" ++ check (runes_of_ascii "packet A { match k as n { 1 : B // a // b 2 : C }, }")).
+Eval vm_compute in ("<<<M919>>>" ++ check (runes_of_ascii "// `tick` ""quote"" 'q'
+packet charz{ len
+`a\`
+, } 	 ")).
+Eval vm_compute in ("<<<M1236>>>" ++ check (runes_of_ascii "packet uint8x //	t
+{ char[] rootA`{ , }` , } //	t")).
+Eval vm_compute in ("<<<M2320>>>" ++ check (runes_of_ascii "
+MetaData Pad{
+u32 rootA `line1
+line2` }
+    ,
+")).
+Eval vm_compute in ("<<<M181>>>" ++ check (runes_of_ascii "MetaData _x // a // b
+{Z9_ options1
+    , }
+")).
+Eval vm_compute in ("<<<M623>>>" ++ check (runes_of_ascii "packet BodyLength
+{
+char[]	MetaDataX, } 	 ")).
+Eval vm_compute in ("<<<M2326>>>" ++ check (runes_of_ascii "
+MetaData Pad{
+u32 rootA `line1
+line2` ,")).
+Eval vm_compute in ("<<<M3240>>>" ++ check (runes_of_ascii "MetaData zchar { zchar[
+// c
+3 ] Pad , }")).
+Eval vm_compute in ("<<<M3936>>>" ++ check (runes_of_ascii "packet A
+{
+    u8 x
+	`d" ++ [133]%N ++ runes_of_ascii "`
+,	// c" ++ [133]%N ++ runes_of_ascii "
+	}")).
+Eval vm_compute in ("<<<M2764>>>" ++ check ([65533; 65533]%N ++ runes_of_ascii "R" ++ [0; 65533; 65533; 65533]%N ++ runes_of_ascii "\>|" ++ [65533; 65533; 65533; 65533]%N ++ runes_of_ascii "e" ++ [65533; 65533]%N ++ runes_of_ascii "g" ++ [12; 65533]%N ++ runes_of_ascii "5" ++ [65533; 65533]%N ++ runes_of_ascii "rL" ++ [403; 26]%N ++ runes_of_ascii "#p" ++ [65533]%N ++ runes_of_ascii "1" ++ [65533; 65533]%N ++ runes_of_ascii ">" ++ [65533]%N ++ runes_of_ascii "B")).
+Eval vm_compute in ("<<<M4010>>>" ++ check (runes_of_ascii "packet A {
+    u8 x `x
+        `,
+}")).
+Eval vm_compute in ("<<<M2671>>>" ++ check (runes_of_ascii "MetaData M { u8 x @lengthOf(y), }")).
+Eval vm_compute in ("<<<M2644>>>" ++ check (runes_of_ascii "packet A { @leftPad('0' u8 x, }")).
+Eval vm_compute in ("<<<M257>>>" ++ check (runes_of_ascii "root packet x	{ }
+/// triple
+")).
+Eval vm_compute in ("<<<M497>>>" ++ check (runes_of_ascii "packet tag{ u32 x_y_z, } //")).
+Eval vm_compute in ("<<<M2709>>>" ++ check ([65533; 23; 65533]%N ++ runes_of_ascii "<q" ++ [65533; 65533; 65533; 65533]%N ++ runes_of_ascii "$" ++ [65533; 65533; 664]%N ++ runes_of_ascii "H" ++ [65533]%N ++ runes_of_ascii "A" ++ [65533; 65533]%N ++ runes_of_ascii "}" ++ [65533]%N ++ runes_of_ascii "r" ++ [65533]%N ++ runes_of_ascii "{" ++ [65533; 65533; 65533]%N)).
+Eval vm_compute in ("<<<M125>>>" ++ check (runes_of_ascii "MetaData
+    Packet
+{ }
+")).
+Eval vm_compute in ("<<<M826>>>" ++ check (runes_of_ascii "
+MetaData Logon{
 }
+
 ")).
-Eval vm_compute in ("<<<M1213>>>" ++ check (runes_of_ascii "packet o {
-// c
-@tag( 42 ) repeat x { char[ 0123456789 ] i64_ , } , } options { }")).
-Eval vm_compute in ("<<<M1245>>>" ++ check (runes_of_ascii "packet o { @tag( 42 ) repeat x { char[ 0123456789 ] i64_ , } , } options {
-// c
-}")).
-Eval vm_compute in ("<<<M818>>>" ++ check (runes_of_ascii "packet A {
-  match k as n {
-    [""a"", 22, ""c c"", 4, ""e""] : B,
-    2 : C
-  },
-}")).
-Eval vm_compute in ("<<<M763>>>" ++ check (runes_of_ascii "= true ""packet"" u16 10 zchar[ ] uint64 char packet u32 packet uint64 uint8")).
-Eval vm_compute in ("<<<M813>>>" ++ check (runes_of_ascii "packet A {
-  match k as n {
-    [1, 22, 007, 4, 5] : B
-    2 : C
-  },
-}")).
-Eval vm_compute in ("<<<M1558>>>" ++ check (runes_of_ascii "options{
-	Z9_
-    =
-	""" ++ [233]%N ++ runes_of_ascii "t" ++ [233]%N ++ runes_of_ascii """ ; rootA=
-    string ;}// trailing space 
- 
-")).
-Eval vm_compute in ("<<<M779>>>" ++ check (runes_of_ascii "packet A {
-  match k as n {
-    [""a"", ""bb""] : B,
-    2 : C
-  },
-}")).
-Eval vm_compute in ("<<<M953>>>" ++ check (runes_of_ascii "packet A {
-    B b `
-x`,
-    B `
-x`,
-    repeat B bs `
-x`,
-}")).
-Eval vm_compute in ("<<<M29>>>" ++ check (runes_of_ascii "packet chars// packet A { u8 x, }
-{} packet u {
+Eval vm_compute in ("<<<M2639>>>" ++ check (runes_of_ascii "packet A { @tag(1) }")).
+Eval vm_compute in ("<<<M3169>>>" ++ check (runes_of_ascii "packet A {
 }
-//	t
+// c 	")).
+Eval vm_compute in ("<<<M3144>>>" ++ check (runes_of_ascii "packet A {
+}
+// c" ++ [8233]%N)).
+Eval vm_compute in ("<<<M2588>>>" ++ check (runes_of_ascii "packet A { u8 x }")).
+Eval vm_compute in ("<<<M898>>>" ++ check (runes_of_ascii "
+options
+{} //x")).
+Eval vm_compute in ("<<<M495>>>" ++ check (runes_of_ascii "packet
+As {}
 ")).
-Eval vm_compute in ("<<<M1950>>>" ++ check (runes_of_ascii "options {
-    a = ""\
-    "";
-    b = ""\
-    ""
-}")).
-Eval vm_compute in ("<<<M1105>>>" ++ check (runes_of_ascii "MetaData
-// c
-zchar { zchar[ 3 ] Pad , }")).
-Eval vm_compute in ("<<<M1074>>>" ++ check (runes_of_ascii "MetaData M {
-}// c
-MetaData N {
-}// d")).
-Eval vm_compute in ("<<<M330>>>" ++ check (runes_of_ascii "packet Logon
-    { }packet _x{}
+Eval vm_compute in ("<<<M1151>>>" ++ check (runes_of_ascii "options { }
 ")).
-Eval vm_compute in ("<<<M992>>>" ++ check (runes_of_ascii "packet A {
- u8 x `d" ++ [133]%N ++ runes_of_ascii "`, // c" ++ [133]%N ++ runes_of_ascii "
-}")).
-Eval vm_compute in ("<<<M952>>>" ++ check (runes_of_ascii "packet A {
-    u8 x `
-x`,
-}")).
-Eval vm_compute in ("<<<M1193>>>" ++ check (runes_of_ascii "options { u8x = 3 // c
-}")).
-Eval vm_compute in ("<<<M764>>>" ++ check ([65533; 65533; 65533]%N ++ runes_of_ascii "L" ++ [919]%N ++ runes_of_ascii "p" ++ [403; 65533; 6; 65533; 65533; 65533; 65533]%N ++ runes_of_ascii "l" ++ [65533; 12; 19]%N ++ runes_of_ascii "$" ++ [65533; 65533]%N)).
-Eval vm_compute in ("<<<M1011>>>" ++ check (runes_of_ascii "// c" ++ [8232]%N ++ runes_of_ascii "
-packet A {
-}")).
-Eval vm_compute in ("<<<M998>>>" ++ check (runes_of_ascii "packet A {
-}// c" ++ [8192]%N)).
-Eval vm_compute in ("<<<M151>>>" ++ check (runes_of_ascii "options { }")).
-Eval vm_compute in ("<<<M1029>>>" ++ check (runes_of_ascii "// c" ++ [11]%N)).
+Eval vm_compute in ("<<<M2755>>>" ++ check (runes_of_ascii "true int64")).
+Eval vm_compute in ("<<<M1253>>>" ++ check (runes_of_ascii "   // c")).
+Eval vm_compute in ("<<<M2477>>>" ++ check (runes_of_ascii "string")).
+Eval vm_compute in ("<<<M2714>>>" ++ check (runes_of_ascii """_fVi")).
+Eval vm_compute in ("<<<M2529>>>" ++ check (runes_of_ascii """a\""")).
+Eval vm_compute in ("<<<M2537>>>" ++ check (runes_of_ascii """`""")).
+Eval vm_compute in ("<<<M2540>>>" ++ check (runes_of_ascii "`a")).
+Eval vm_compute in ("<<<M2707>>>" ++ check ([0]%N)).
